@@ -12,14 +12,21 @@
                            (Model/Stack.v) returns the backend's answer and leaves the
                            backend in the state after the dispatched calls, for EVERY backend
                            whose answer to those calls is conforming, every option set;
-     C03_two_hops_*        (Proofs/StackTwoHops.v) the same through two hops;
+     C03_step_one, C03_history_transparent*, C03_mem_*   (Proofs/StackStep.v, StackHistory*.v,
+                           StackMem*.v) the history-level statement: for every backend
+                           satisfying the contract [Conforming] - which the ocimem model does -
+                           and every admissible history, the run through the stack and the
+                           direct run agree result by result and end in related states;
+     C03_winv_ops, C03_commit_stores   (Proofs/StackUploadInv.v) the upload protocol over
+                           arbitrary writer-operation sequences;
+     C03_two_hops_*, C03_conf_view     (Proofs/StackTwoHops.v, StackCompose.v) two hops;
      C03_*_refuted         (Proofs/StackRefuted.v) the recorded deviations as kernel-checked
                            witnesses on the ocimem model.
 
    Statements only (Proof. exact <lemma>. Qed. + Print Assumptions).  The statements are the
    lemmas' types as Coq prints them (Check), hence the fully qualified names. *)
 From Coq Require Import String.
-From OCI Require Import Proofs.RequestCodec Proofs.StackDispatch Proofs.StackDesc Proofs.StackTransparent Proofs.StackListing Proofs.StackTwoHops Proofs.StackRefuted.
+From OCI Require Proofs.RequestCodec Proofs.StackDispatch Proofs.StackDesc Proofs.StackTransparent Proofs.StackListingB Proofs.StackListing Proofs.StackTwoHops Proofs.StackRefuted Proofs.StackStep Proofs.StackHistory Proofs.StackHistoryRun Proofs.StackMem Proofs.StackMemRun Proofs.StackUploadInv Proofs.StackUploadMem Proofs.StackUploadEmpty Proofs.StackUploadErr Proofs.StackCompose Proofs.StackHistoryRefuted.
 
 (* the client renders a Request value to method + URL, the server's router reads back exactly that value (norm: documented normalisations only), for every request with well-formed names, routing words included *)
 Theorem C03_url_codec :
@@ -29,7 +36,7 @@ Theorem C03_url_codec :
     Request.url_parse_v2 (snd (Request.construct r)) = Outcome.Ok (path, rawq) /\
     Request.parse_req linked (fst (Request.construct r)) path rawq =
     Outcome.Ok (RequestCodecSpec.norm r).
-Proof. exact @url_codec. Qed.
+Proof. exact @RequestCodec.url_codec. Qed.
 Print Assumptions C03_url_codec.
 
 (* two well-formed requests rendered to the same method + URL are the same request (up to norm) *)
@@ -39,7 +46,7 @@ Theorem C03_url_codec_injective :
   RequestCodecSpec.wf_request linked r2 = true ->
   Request.construct r1 = Request.construct r2 ->
   RequestCodecSpec.norm r1 = RequestCodecSpec.norm r2.
-Proof. exact @url_codec_injective. Qed.
+Proof. exact @RequestCodec.url_codec_injective. Qed.
 Print Assumptions C03_url_codec_injective.
 
 (* Request.Construct (which re-parses what it built) accepts every well-formed request *)
@@ -47,13 +54,13 @@ Theorem C03_construct_ok :
   forall (linked : Ref.alg -> bool) (r : Request.request),
   RequestCodecSpec.wf_request linked r = true ->
   Request.Construct linked r = Outcome.Ok (Request.construct r).
-Proof. exact @construct_ok. Qed.
+Proof. exact @RequestCodec.construct_ok. Qed.
 Print Assumptions C03_construct_ok.
 
 (* converse: what the router returns for a canonical request line is well-formed and renders back to a line that parses to the same request *)
 Theorem C03_parse_construct :
   forall (linked : Ref.alg -> bool) (m p q : Bytes.bytes) (r : Request.request),
-  byte_list q = true ->
+  RequestCodec.byte_list q = true ->
   Request.parse_req linked m p q = Outcome.Ok r ->
   RequestCodecSpec.parser_canonical r = true ->
   RequestCodecSpec.wf_request linked r = true /\
@@ -61,24 +68,24 @@ Theorem C03_parse_construct :
   (exists path rawq : Bytes.bytes,
      Request.url_parse_v2 (snd (Request.construct r)) = Outcome.Ok (path, rawq) /\
      Request.parse_req linked (fst (Request.construct r)) path rawq = Outcome.Ok r).
-Proof. exact @parse_construct. Qed.
+Proof. exact @RequestCodec.parse_construct. Qed.
 Print Assumptions C03_parse_construct.
 
 (* the two router outputs construct cannot print back (empty upload id after base64 skipping CR/LF, n < -1) - why parser_canonical is a hypothesis above *)
 Theorem C03_parse_construct_refuted :
   (exists r : Request.request,
-     Request.parse_req all_linked Request.m_GET
+     Request.parse_req RequestCodec.all_linked Request.m_GET
        (Bytes.s "/v2/foo/blobs/uploads/" ++
         BinNums.Npos (BinNums.xO (BinNums.xI (BinNums.xO BinNums.xH))) :: nil)%list nil =
      Outcome.Ok r /\
-     Request.q_upload r = nil /\ Request.Construct all_linked r = Outcome.Err tt) /\
+     Request.q_upload r = nil /\ Request.Construct RequestCodec.all_linked r = Outcome.Err tt) /\
   (exists r : Request.request,
-     Request.parse_req all_linked Request.m_GET (Bytes.s "/v2/_catalog") (Bytes.s "n=-5") =
-     Outcome.Ok r /\
+     Request.parse_req RequestCodec.all_linked Request.m_GET (Bytes.s "/v2/_catalog")
+       (Bytes.s "n=-5") = Outcome.Ok r /\
      Request.q_listn r = BinNums.Zneg (BinNums.xI (BinNums.xO BinNums.xH)) /\
      Request.q_listn (RequestCodecSpec.norm r) = BinNums.Zneg BinNums.xH /\
-     RequestCodecSpec.codec_holds all_linked r = true).
-Proof. exact @parse_construct_refuted. Qed.
+     RequestCodecSpec.codec_holds RequestCodec.all_linked r = true).
+Proof. exact @RequestCodec.parse_construct_refuted. Qed.
 Print Assumptions C03_parse_construct_refuted.
 
 (* handler table: for every request the router accepts, every backend, option set, header and body, the backend calls ociserver makes are exactly those of dispatch_table, in order, and the backend ends in the state those calls lead to *)
@@ -95,7 +102,7 @@ Theorem C03_dispatch :
   '(b', tr, _) := Server.handle linked digest_of subject_of enc redirect B bstep o b req in
    (b', Stack.calls_of tr) =
    Stack.run_plan bstep b (Stack.dispatch_table linked digest_of subject_of o req r).
-Proof. exact @dispatch. Qed.
+Proof. exact @StackDispatch.dispatch. Qed.
 Print Assumptions C03_dispatch.
 
 (* every backend call of an exchange carries the request's own repository / digest / tag / from / upload id *)
@@ -116,7 +123,7 @@ Theorem C03_dispatch_args_exact :
       | Server.ECall c _ => Stack.op_of_request r c = true
       | _ => True
       end) tr.
-Proof. exact @dispatch_args_exact. Qed.
+Proof. exact @StackDispatch.dispatch_args_exact. Qed.
 Print Assumptions C03_dispatch_args_exact.
 
 (* the simple request kinds make exactly one backend call *)
@@ -129,11 +136,11 @@ Theorem C03_dispatch_one_call :
     (req : Server.hreq) (r : Request.request) (c : Iface.op),
   Request.parse_req linked (Server.hq_method req) (Server.hq_path req)
     (Server.hq_rawquery req) = Outcome.Ok r ->
-  simple_call o req r = Some c ->
+  StackDispatch.simple_call o req r = Some c ->
   let
   '(b', tr, _) := Server.handle linked digest_of subject_of enc redirect B bstep o b req in
    b' = fst (bstep b c) /\ Stack.calls_of tr = ((c, snd (bstep b c)) :: nil)%list.
-Proof. exact @dispatch_one_call. Qed.
+Proof. exact @StackDispatch.dispatch_one_call. Qed.
 Print Assumptions C03_dispatch_one_call.
 
 (* a request line the router refuses reaches the backend with no call at all *)
@@ -150,7 +157,7 @@ Theorem C03_dispatch_refused :
   let
   '(b', tr, _) := Server.handle linked digest_of subject_of enc redirect B bstep o b req in
    b' = b /\ tr = nil.
-Proof. exact @dispatch_refused. Qed.
+Proof. exact @StackDispatch.dispatch_refused. Qed.
 Print Assumptions C03_dispatch_refused.
 
 (* digest and size survive ociserver's header emission and ociclient's descriptorFromResponse (blob HEAD) *)
@@ -162,17 +169,17 @@ Theorem C03_descriptor_roundtrip_blob_head :
     (dec_index : Bytes.bytes -> option (list Iface.desc)) (idx : nat) 
     (rq : Http.hreq) (d : Iface.desc) (known : Bytes.bytes),
   Request.vdigest linked (Iface.d_digest d) = true ->
-  int64 (Iface.d_size d) ->
+  StackDesc.int64 (Iface.d_size d) ->
   Client.descriptor_from_response
     (Stack.stack_env linked hash media dec_errors dec_names dec_index) Client.current
-    (in_hand idx rq Http.MHead
+    (StackDesc.in_hand idx rq Http.MHead
        {|
          Server.p_status :=
            BinNums.Zpos
              (BinNums.xO
                 (BinNums.xO
                    (BinNums.xO (BinNums.xI (BinNums.xO (BinNums.xO (BinNums.xI BinNums.xH)))))));
-         Server.p_hdrs := hdrs_blob_head d;
+         Server.p_hdrs := StackDesc.hdrs_blob_head d;
          Server.p_body := nil;
          Server.p_json := None
        |}) known true true =
@@ -183,7 +190,7 @@ Theorem C03_descriptor_roundtrip_blob_head :
       Iface.d_size := Iface.d_size d;
       Iface.d_artifact := nil
     |}.
-Proof. exact @descriptor_roundtrip_blob_head. Qed.
+Proof. exact @StackDesc.descriptor_roundtrip_blob_head. Qed.
 Print Assumptions C03_descriptor_roundtrip_blob_head.
 
 (* digest, size and media type survive (manifest HEAD), every option set *)
@@ -196,18 +203,18 @@ Theorem C03_descriptor_roundtrip_manifest_head :
     (idx : nat) (rq : Http.hreq) (has_tag : bool) (d : Iface.desc) 
     (known : Bytes.bytes),
   Request.vdigest linked (Iface.d_digest d) = true ->
-  int64 (Iface.d_size d) ->
+  StackDesc.int64 (Iface.d_size d) ->
   Request.vdigest linked known = true \/ known = nil ->
   Client.descriptor_from_response
     (Stack.stack_env linked hash media dec_errors dec_names dec_index) Client.current
-    (in_hand idx rq Http.MHead
+    (StackDesc.in_hand idx rq Http.MHead
        {|
          Server.p_status :=
            BinNums.Zpos
              (BinNums.xO
                 (BinNums.xO
                    (BinNums.xO (BinNums.xI (BinNums.xO (BinNums.xO (BinNums.xI BinNums.xH)))))));
-         Server.p_hdrs := hdrs_manifest_head o has_tag d;
+         Server.p_hdrs := StackDesc.hdrs_manifest_head o has_tag d;
          Server.p_body := nil;
          Server.p_json := None
        |}) known true true =
@@ -220,12 +227,12 @@ Theorem C03_descriptor_roundtrip_manifest_head :
    else
     Outcome.Ok
       {|
-        Iface.d_media := media_or_octet (Iface.d_media d);
+        Iface.d_media := StackDesc.media_or_octet (Iface.d_media d);
         Iface.d_digest := dg;
         Iface.d_size := Iface.d_size d;
         Iface.d_artifact := nil
       |}).
-Proof. exact @descriptor_roundtrip_manifest_head. Qed.
+Proof. exact @StackDesc.descriptor_roundtrip_manifest_head. Qed.
 Print Assumptions C03_descriptor_roundtrip_manifest_head.
 
 (* the same for manifest GET, including the digest recovered from the body when the server omits it *)
@@ -237,30 +244,30 @@ Theorem C03_descriptor_roundtrip_manifest_get :
     (dec_index : Bytes.bytes -> option (list Iface.desc)) (o : Server.opts) 
     (idx : nat) (rq : Http.hreq) (d : Iface.desc) (data known : Bytes.bytes),
   Request.vdigest linked (Iface.d_digest d) = true ->
-  int64 (Iface.d_size d) ->
+  StackDesc.int64 (Iface.d_size d) ->
   Request.vdigest linked known = true \/ known = nil ->
   Client.descriptor_from_response
     (Stack.stack_env linked hash media dec_errors dec_names dec_index) Client.current
-    (in_hand idx rq Http.MGet
+    (StackDesc.in_hand idx rq Http.MGet
        {|
          Server.p_status :=
            BinNums.Zpos
              (BinNums.xO
                 (BinNums.xO
                    (BinNums.xO (BinNums.xI (BinNums.xO (BinNums.xO (BinNums.xI BinNums.xH)))))));
-         Server.p_hdrs := hdrs_manifest_get o d;
+         Server.p_hdrs := StackDesc.hdrs_manifest_get o d;
          Server.p_body := data;
          Server.p_json := None
        |}) known true false =
   Outcome.Ok
     {|
-      Iface.d_media := media_or_octet (Iface.d_media d);
+      Iface.d_media := StackDesc.media_or_octet (Iface.d_media d);
       Iface.d_digest :=
         if Server.o_omit_digest_from_tag_get o then known else Iface.d_digest d;
       Iface.d_size := Iface.d_size d;
       Iface.d_artifact := nil
     |}.
-Proof. exact @descriptor_roundtrip_manifest_get. Qed.
+Proof. exact @StackDesc.descriptor_roundtrip_manifest_get. Qed.
 Print Assumptions C03_descriptor_roundtrip_manifest_get.
 
 (* the same for blob GET *)
@@ -272,28 +279,28 @@ Theorem C03_descriptor_roundtrip_blob_get :
     (dec_index : Bytes.bytes -> option (list Iface.desc)) (idx : nat) 
     (rq : Http.hreq) (dig : Bytes.bytes) (d : Iface.desc) (data known : Bytes.bytes),
   Request.vdigest linked dig = true ->
-  int64 (Iface.d_size d) ->
+  StackDesc.int64 (Iface.d_size d) ->
   Client.descriptor_from_response
     (Stack.stack_env linked hash media dec_errors dec_names dec_index) Client.current
-    (in_hand idx rq Http.MGet
+    (StackDesc.in_hand idx rq Http.MGet
        {|
          Server.p_status :=
            BinNums.Zpos
              (BinNums.xO
                 (BinNums.xO
                    (BinNums.xO (BinNums.xI (BinNums.xO (BinNums.xO (BinNums.xI BinNums.xH)))))));
-         Server.p_hdrs := hdrs_blob_get dig d;
+         Server.p_hdrs := StackDesc.hdrs_blob_get dig d;
          Server.p_body := data;
          Server.p_json := None
        |}) known true false =
   Outcome.Ok
     {|
-      Iface.d_media := media_or_octet (Iface.d_media d);
+      Iface.d_media := StackDesc.media_or_octet (Iface.d_media d);
       Iface.d_digest := dig;
       Iface.d_size := Iface.d_size d;
       Iface.d_artifact := nil
     |}.
-Proof. exact @descriptor_roundtrip_blob_get. Qed.
+Proof. exact @StackDesc.descriptor_roundtrip_blob_get. Qed.
 Print Assumptions C03_descriptor_roundtrip_blob_get.
 
 (* a ranged blob GET still describes the whole blob *)
@@ -306,28 +313,28 @@ Theorem C03_descriptor_roundtrip_blob_range :
     (rq : Http.hreq) (dig : Bytes.bytes) (d : Iface.desc) (data : Bytes.bytes)
     (start end_ : BinNums.Z) (known : Bytes.bytes),
   Request.vdigest linked dig = true ->
-  int64 (Iface.d_size d) ->
+  StackDesc.int64 (Iface.d_size d) ->
   Client.descriptor_from_response
     (Stack.stack_env linked hash media dec_errors dec_names dec_index) Client.current
-    (in_hand idx rq Http.MGet
+    (StackDesc.in_hand idx rq Http.MGet
        {|
          Server.p_status :=
            BinNums.Zpos
              (BinNums.xO
                 (BinNums.xI
                    (BinNums.xI (BinNums.xI (BinNums.xO (BinNums.xO (BinNums.xI BinNums.xH)))))));
-         Server.p_hdrs := hdrs_blob_range dig d start end_;
+         Server.p_hdrs := StackDesc.hdrs_blob_range dig d start end_;
          Server.p_body := data;
          Server.p_json := None
        |}) known true false =
   Outcome.Ok
     {|
-      Iface.d_media := media_or_octet (Iface.d_media d);
+      Iface.d_media := StackDesc.media_or_octet (Iface.d_media d);
       Iface.d_digest := dig;
       Iface.d_size := Iface.d_size d;
       Iface.d_artifact := nil
     |}.
-Proof. exact @descriptor_roundtrip_blob_range. Qed.
+Proof. exact @StackDesc.descriptor_roundtrip_blob_range. Qed.
 Print Assumptions C03_descriptor_roundtrip_blob_range.
 
 (* ResolveBlob through client + server over ANY backend whose one answer is conforming returns that answer and leaves the backend in the state after that one call *)
@@ -345,15 +352,15 @@ Theorem C03_transparent_ResolveBlob_ok :
   Request.vrepo repo = true ->
   Request.vdigest linked dig = true ->
   bstep (Stack.sv_b (Http.w_srv w)) (Iface.ResolveBlob repo dig) = (b', Outcome.Ok v) ->
-  conf_desc linked (Server.desc_of v) ->
+  StackTransparent.conf_desc linked (Server.desc_of v) ->
   exists w' : Http.world (Stack.srv B),
     Stack.stack_call linked hash subject_of media enc dec_errors dec_names dec_index redirect
       bstep o cc (Client.CResolveBlob repo dig) w =
-    (w', Client.ODesc (Outcome.Ok (head_desc false (Server.desc_of v)))) /\
+    (w', Client.ODesc (Outcome.Ok (StackTransparent.head_desc false (Server.desc_of v)))) /\
     Http.w_srv w' =
     StackBase.after B (Http.w_srv w) b'
       (Server.ECall (Iface.ResolveBlob repo dig) (Outcome.Ok v) :: nil).
-Proof. exact @transparent_ResolveBlob_ok. Qed.
+Proof. exact @StackTransparent.transparent_ResolveBlob_ok. Qed.
 Print Assumptions C03_transparent_ResolveBlob_ok.
 
 (* a backend error of ResolveBlob crosses the hop with its status (HEAD carrier: the code is rebuilt from the status) *)
@@ -372,7 +379,7 @@ Theorem C03_transparent_ResolveBlob_err :
   Request.vrepo repo = true ->
   Request.vdigest linked dig = true ->
   bstep (Stack.sv_b (Http.w_srv w)) (Iface.ResolveBlob repo dig) = (b', Outcome.Err e) ->
-  conf_err e ->
+  StackTransparent.conf_err e ->
   BinInt.Z.le
     (Bytes.blen
        (enc
@@ -393,11 +400,11 @@ Theorem C03_transparent_ResolveBlob_err :
   exists w' : Http.world (Stack.srv B),
     Stack.stack_call linked hash subject_of media enc dec_errors dec_names dec_index redirect
       bstep o cc (Client.CResolveBlob repo dig) w =
-    (w', Client.ODesc (Outcome.Err (wire_error enc true e))) /\
+    (w', Client.ODesc (Outcome.Err (StackTransparent.wire_error enc true e))) /\
     Http.w_srv w' =
     StackBase.after B (Http.w_srv w) b'
       (Server.ECall (Iface.ResolveBlob repo dig) (Outcome.Err e) :: nil).
-Proof. exact @transparent_ResolveBlob_err. Qed.
+Proof. exact @StackTransparent.transparent_ResolveBlob_err. Qed.
 Print Assumptions C03_transparent_ResolveBlob_err.
 
 (* as above for ResolveManifest *)
@@ -415,7 +422,7 @@ Theorem C03_transparent_ResolveManifest_ok :
   Request.vrepo repo = true ->
   Request.vdigest linked dig = true ->
   bstep (Stack.sv_b (Http.w_srv w)) (Iface.ResolveManifest repo dig) = (b', Outcome.Ok v) ->
-  conf_desc linked (Server.desc_of v) ->
+  StackTransparent.conf_desc linked (Server.desc_of v) ->
   exists w' : Http.world (Stack.srv B),
     Stack.stack_call linked hash subject_of media enc dec_errors dec_names dec_index redirect
       bstep o cc (Client.CResolveManifest repo dig) w =
@@ -423,7 +430,7 @@ Theorem C03_transparent_ResolveManifest_ok :
      Client.ODesc
        (Outcome.Ok
           {|
-            Iface.d_media := media_or_octet (Iface.d_media (Server.desc_of v));
+            Iface.d_media := StackDesc.media_or_octet (Iface.d_media (Server.desc_of v));
             Iface.d_digest :=
               if Server.o_omit_digest_from_tag_get o
               then dig
@@ -434,7 +441,7 @@ Theorem C03_transparent_ResolveManifest_ok :
     Http.w_srv w' =
     StackBase.after B (Http.w_srv w) b'
       (Server.ECall (Iface.ResolveManifest repo dig) (Outcome.Ok v) :: nil).
-Proof. exact @transparent_ResolveManifest_ok. Qed.
+Proof. exact @StackTransparent.transparent_ResolveManifest_ok. Qed.
 Print Assumptions C03_transparent_ResolveManifest_ok.
 
 (* as above *)
@@ -453,7 +460,7 @@ Theorem C03_transparent_ResolveManifest_err :
   Request.vrepo repo = true ->
   Request.vdigest linked dig = true ->
   bstep (Stack.sv_b (Http.w_srv w)) (Iface.ResolveManifest repo dig) = (b', Outcome.Err e) ->
-  conf_err e ->
+  StackTransparent.conf_err e ->
   BinInt.Z.le
     (Bytes.blen
        (enc
@@ -474,11 +481,11 @@ Theorem C03_transparent_ResolveManifest_err :
   exists w' : Http.world (Stack.srv B),
     Stack.stack_call linked hash subject_of media enc dec_errors dec_names dec_index redirect
       bstep o cc (Client.CResolveManifest repo dig) w =
-    (w', Client.ODesc (Outcome.Err (wire_error enc true e))) /\
+    (w', Client.ODesc (Outcome.Err (StackTransparent.wire_error enc true e))) /\
     Http.w_srv w' =
     StackBase.after B (Http.w_srv w) b'
       (Server.ECall (Iface.ResolveManifest repo dig) (Outcome.Err e) :: nil).
-Proof. exact @transparent_ResolveManifest_err. Qed.
+Proof. exact @StackTransparent.transparent_ResolveManifest_err. Qed.
 Print Assumptions C03_transparent_ResolveManifest_err.
 
 (* as above for ResolveTag *)
@@ -496,15 +503,15 @@ Theorem C03_transparent_ResolveTag_ok :
   Request.vrepo repo = true ->
   Request.vtag tag = true ->
   bstep (Stack.sv_b (Http.w_srv w)) (Iface.ResolveTag repo tag) = (b', Outcome.Ok v) ->
-  conf_desc linked (Server.desc_of v) ->
+  StackTransparent.conf_desc linked (Server.desc_of v) ->
   exists w' : Http.world (Stack.srv B),
     Stack.stack_call linked hash subject_of media enc dec_errors dec_names dec_index redirect
       bstep o cc (Client.CResolveTag repo tag) w =
-    (w', Client.ODesc (Outcome.Ok (head_desc true (Server.desc_of v)))) /\
+    (w', Client.ODesc (Outcome.Ok (StackTransparent.head_desc true (Server.desc_of v)))) /\
     Http.w_srv w' =
     StackBase.after B (Http.w_srv w) b'
       (Server.ECall (Iface.ResolveTag repo tag) (Outcome.Ok v) :: nil).
-Proof. exact @transparent_ResolveTag_ok. Qed.
+Proof. exact @StackTransparent.transparent_ResolveTag_ok. Qed.
 Print Assumptions C03_transparent_ResolveTag_ok.
 
 (* as above *)
@@ -523,7 +530,7 @@ Theorem C03_transparent_ResolveTag_err :
   Request.vrepo repo = true ->
   Request.vtag tag = true ->
   bstep (Stack.sv_b (Http.w_srv w)) (Iface.ResolveTag repo tag) = (b', Outcome.Err e) ->
-  conf_err e ->
+  StackTransparent.conf_err e ->
   BinInt.Z.le
     (Bytes.blen
        (enc
@@ -544,11 +551,11 @@ Theorem C03_transparent_ResolveTag_err :
   exists w' : Http.world (Stack.srv B),
     Stack.stack_call linked hash subject_of media enc dec_errors dec_names dec_index redirect
       bstep o cc (Client.CResolveTag repo tag) w =
-    (w', Client.ODesc (Outcome.Err (wire_error enc true e))) /\
+    (w', Client.ODesc (Outcome.Err (StackTransparent.wire_error enc true e))) /\
     Http.w_srv w' =
     StackBase.after B (Http.w_srv w) b'
       (Server.ECall (Iface.ResolveTag repo tag) (Outcome.Err e) :: nil).
-Proof. exact @transparent_ResolveTag_err. Qed.
+Proof. exact @StackTransparent.transparent_ResolveTag_err. Qed.
 Print Assumptions C03_transparent_ResolveTag_err.
 
 (* DeleteBlob is relayed as one call with the caller's arguments *)
@@ -572,7 +579,7 @@ Theorem C03_transparent_DeleteBlob_ok :
     Http.w_srv w' =
     StackBase.after B (Http.w_srv w) b'
       (Server.ECall (Iface.DeleteBlob repo dig) (Outcome.Ok v) :: nil).
-Proof. exact @transparent_DeleteBlob_ok. Qed.
+Proof. exact @StackTransparent.transparent_DeleteBlob_ok. Qed.
 Print Assumptions C03_transparent_DeleteBlob_ok.
 
 (* and its error comes back with code and status *)
@@ -591,7 +598,7 @@ Theorem C03_transparent_DeleteBlob_err :
   Request.vrepo repo = true ->
   Request.vdigest linked dig = true ->
   bstep (Stack.sv_b (Http.w_srv w)) (Iface.DeleteBlob repo dig) = (b', Outcome.Err e) ->
-  conf_err e ->
+  StackTransparent.conf_err e ->
   BinInt.Z.le
     (Bytes.blen
        (enc
@@ -612,11 +619,11 @@ Theorem C03_transparent_DeleteBlob_err :
   exists w' : Http.world (Stack.srv B),
     Stack.stack_call linked hash subject_of media enc dec_errors dec_names dec_index redirect
       bstep o cc (Client.CDeleteBlob repo dig) w =
-    (w', Client.OUnit (Outcome.Err (wire_error enc false e))) /\
+    (w', Client.OUnit (Outcome.Err (StackTransparent.wire_error enc false e))) /\
     Http.w_srv w' =
     StackBase.after B (Http.w_srv w) b'
       (Server.ECall (Iface.DeleteBlob repo dig) (Outcome.Err e) :: nil).
-Proof. exact @transparent_DeleteBlob_err. Qed.
+Proof. exact @StackTransparent.transparent_DeleteBlob_err. Qed.
 Print Assumptions C03_transparent_DeleteBlob_err.
 
 (* as above *)
@@ -640,7 +647,7 @@ Theorem C03_transparent_DeleteManifest_ok :
     Http.w_srv w' =
     StackBase.after B (Http.w_srv w) b'
       (Server.ECall (Iface.DeleteManifest repo dig) (Outcome.Ok v) :: nil).
-Proof. exact @transparent_DeleteManifest_ok. Qed.
+Proof. exact @StackTransparent.transparent_DeleteManifest_ok. Qed.
 Print Assumptions C03_transparent_DeleteManifest_ok.
 
 (* as above *)
@@ -659,7 +666,7 @@ Theorem C03_transparent_DeleteManifest_err :
   Request.vrepo repo = true ->
   Request.vdigest linked dig = true ->
   bstep (Stack.sv_b (Http.w_srv w)) (Iface.DeleteManifest repo dig) = (b', Outcome.Err e) ->
-  conf_err e ->
+  StackTransparent.conf_err e ->
   BinInt.Z.le
     (Bytes.blen
        (enc
@@ -680,11 +687,11 @@ Theorem C03_transparent_DeleteManifest_err :
   exists w' : Http.world (Stack.srv B),
     Stack.stack_call linked hash subject_of media enc dec_errors dec_names dec_index redirect
       bstep o cc (Client.CDeleteManifest repo dig) w =
-    (w', Client.OUnit (Outcome.Err (wire_error enc false e))) /\
+    (w', Client.OUnit (Outcome.Err (StackTransparent.wire_error enc false e))) /\
     Http.w_srv w' =
     StackBase.after B (Http.w_srv w) b'
       (Server.ECall (Iface.DeleteManifest repo dig) (Outcome.Err e) :: nil).
-Proof. exact @transparent_DeleteManifest_err. Qed.
+Proof. exact @StackTransparent.transparent_DeleteManifest_err. Qed.
 Print Assumptions C03_transparent_DeleteManifest_err.
 
 (* as above *)
@@ -708,7 +715,7 @@ Theorem C03_transparent_DeleteTag_ok :
     Http.w_srv w' =
     StackBase.after B (Http.w_srv w) b'
       (Server.ECall (Iface.DeleteTag repo tag) (Outcome.Ok v) :: nil).
-Proof. exact @transparent_DeleteTag_ok. Qed.
+Proof. exact @StackTransparent.transparent_DeleteTag_ok. Qed.
 Print Assumptions C03_transparent_DeleteTag_ok.
 
 (* as above *)
@@ -727,7 +734,7 @@ Theorem C03_transparent_DeleteTag_err :
   Request.vrepo repo = true ->
   Request.vtag tag = true ->
   bstep (Stack.sv_b (Http.w_srv w)) (Iface.DeleteTag repo tag) = (b', Outcome.Err e) ->
-  conf_err e ->
+  StackTransparent.conf_err e ->
   BinInt.Z.le
     (Bytes.blen
        (enc
@@ -748,11 +755,11 @@ Theorem C03_transparent_DeleteTag_err :
   exists w' : Http.world (Stack.srv B),
     Stack.stack_call linked hash subject_of media enc dec_errors dec_names dec_index redirect
       bstep o cc (Client.CDeleteTag repo tag) w =
-    (w', Client.OUnit (Outcome.Err (wire_error enc false e))) /\
+    (w', Client.OUnit (Outcome.Err (StackTransparent.wire_error enc false e))) /\
     Http.w_srv w' =
     StackBase.after B (Http.w_srv w) b'
       (Server.ECall (Iface.DeleteTag repo tag) (Outcome.Err e) :: nil).
-Proof. exact @transparent_DeleteTag_err. Qed.
+Proof. exact @StackTransparent.transparent_DeleteTag_err. Qed.
 Print Assumptions C03_transparent_DeleteTag_err.
 
 (* MountBlob is relayed with from / to / digest unchanged; the descriptor that comes back has the right digest (its size is the recorded deviation, see C03_mount_size_refuted) *)
@@ -788,7 +795,7 @@ Theorem C03_transparent_MountBlob_ok :
     Http.w_srv w' =
     StackBase.after B (Http.w_srv w) b'
       (Server.ECall (Iface.MountBlob from to dig) (Outcome.Ok v) :: nil).
-Proof. exact @transparent_MountBlob_ok. Qed.
+Proof. exact @StackTransparent.transparent_MountBlob_ok. Qed.
 Print Assumptions C03_transparent_MountBlob_ok.
 
 (* as above for the error *)
@@ -808,7 +815,7 @@ Theorem C03_transparent_MountBlob_err :
   Request.vrepo to = true ->
   Request.vdigest linked dig = true ->
   bstep (Stack.sv_b (Http.w_srv w)) (Iface.MountBlob from to dig) = (b', Outcome.Err e) ->
-  conf_err e ->
+  StackTransparent.conf_err e ->
   BinInt.Z.le
     (Bytes.blen
        (enc
@@ -829,11 +836,11 @@ Theorem C03_transparent_MountBlob_err :
   exists w' : Http.world (Stack.srv B),
     Stack.stack_call linked hash subject_of media enc dec_errors dec_names dec_index redirect
       bstep o cc (Client.CMountBlob from to dig) w =
-    (w', Client.ODesc (Outcome.Err (wire_error enc false e))) /\
+    (w', Client.ODesc (Outcome.Err (StackTransparent.wire_error enc false e))) /\
     Http.w_srv w' =
     StackBase.after B (Http.w_srv w) b'
       (Server.ECall (Iface.MountBlob from to dig) (Outcome.Err e) :: nil).
-Proof. exact @transparent_MountBlob_err. Qed.
+Proof. exact @StackTransparent.transparent_MountBlob_err. Qed.
 Print Assumptions C03_transparent_MountBlob_err.
 
 (* GetBlob returns the backend's descriptor and bytes *)
@@ -855,7 +862,7 @@ Theorem C03_transparent_GetBlob_ok :
   bstep (Stack.sv_b (Http.w_srv w)) (Iface.GetBlob repo dig) = (b', Outcome.Ok v) ->
   Iface.d_size (Server.desc_of v) = Bytes.blen (Server.data_of v) ->
   BinInt.Z.le (Bytes.blen (Server.data_of v)) Request.max_int64 ->
-  content_of hash dig (Server.data_of v) ->
+  StackTransparent.content_of hash dig (Server.data_of v) ->
   exists w' : Http.world (Stack.srv B),
     Stack.stack_call linked hash subject_of media enc dec_errors dec_names dec_index redirect
       bstep o cc (Client.CGetBlob repo dig bufsz) w =
@@ -863,7 +870,7 @@ Theorem C03_transparent_GetBlob_ok :
      Client.ORead
        (Outcome.Ok
           ({|
-             Iface.d_media := media_or_octet (Iface.d_media (Server.desc_of v));
+             Iface.d_media := StackDesc.media_or_octet (Iface.d_media (Server.desc_of v));
              Iface.d_digest := dig;
              Iface.d_size := Iface.d_size (Server.desc_of v);
              Iface.d_artifact := nil
@@ -871,7 +878,7 @@ Theorem C03_transparent_GetBlob_ok :
     Http.w_srv w' =
     StackBase.after B (Http.w_srv w) b'
       (Server.ECall (Iface.GetBlob repo dig) (Outcome.Ok v) :: Server.ECloseR :: nil).
-Proof. exact @transparent_GetBlob_ok. Qed.
+Proof. exact @StackTransparent.transparent_GetBlob_ok. Qed.
 Print Assumptions C03_transparent_GetBlob_ok.
 
 (* as above for the error *)
@@ -892,7 +899,7 @@ Theorem C03_transparent_GetBlob_err :
   Request.vrepo repo = true ->
   Request.vdigest linked dig = true ->
   bstep (Stack.sv_b (Http.w_srv w)) (Iface.GetBlob repo dig) = (b', Outcome.Err e) ->
-  conf_err e ->
+  StackTransparent.conf_err e ->
   BinInt.Z.le
     (Bytes.blen
        (enc
@@ -913,11 +920,11 @@ Theorem C03_transparent_GetBlob_err :
   exists w' : Http.world (Stack.srv B),
     Stack.stack_call linked hash subject_of media enc dec_errors dec_names dec_index redirect
       bstep o cc (Client.CGetBlob repo dig bufsz) w =
-    (w', Client.ORead (Outcome.Err (wire_error enc false e))) /\
+    (w', Client.ORead (Outcome.Err (StackTransparent.wire_error enc false e))) /\
     Http.w_srv w' =
     StackBase.after B (Http.w_srv w) b'
       (Server.ECall (Iface.GetBlob repo dig) (Outcome.Err e) :: nil).
-Proof. exact @transparent_GetBlob_err. Qed.
+Proof. exact @StackTransparent.transparent_GetBlob_err. Qed.
 Print Assumptions C03_transparent_GetBlob_err.
 
 (* GetManifest returns the backend's descriptor (media type included) and bytes *)
@@ -939,7 +946,7 @@ Theorem C03_transparent_GetManifest_ok :
   Iface.d_digest (Server.desc_of v) = dig ->
   Iface.d_size (Server.desc_of v) = Bytes.blen (Server.data_of v) ->
   BinInt.Z.le (Bytes.blen (Server.data_of v)) Request.max_int64 ->
-  content_of hash dig (Server.data_of v) ->
+  StackTransparent.content_of hash dig (Server.data_of v) ->
   exists w' : Http.world (Stack.srv B),
     Stack.stack_call linked hash subject_of media enc dec_errors dec_names dec_index redirect
       bstep o cc (Client.CGetManifest repo dig bufsz) w =
@@ -947,7 +954,7 @@ Theorem C03_transparent_GetManifest_ok :
      Client.ORead
        (Outcome.Ok
           ({|
-             Iface.d_media := media_or_octet (Iface.d_media (Server.desc_of v));
+             Iface.d_media := StackDesc.media_or_octet (Iface.d_media (Server.desc_of v));
              Iface.d_digest := dig;
              Iface.d_size := Iface.d_size (Server.desc_of v);
              Iface.d_artifact := nil
@@ -955,7 +962,7 @@ Theorem C03_transparent_GetManifest_ok :
     Http.w_srv w' =
     StackBase.after B (Http.w_srv w) b'
       (Server.ECall (Iface.GetManifest repo dig) (Outcome.Ok v) :: Server.ECloseR :: nil).
-Proof. exact @transparent_GetManifest_ok. Qed.
+Proof. exact @StackTransparent.transparent_GetManifest_ok. Qed.
 Print Assumptions C03_transparent_GetManifest_ok.
 
 (* as above *)
@@ -975,7 +982,7 @@ Theorem C03_transparent_GetManifest_err :
   Request.vrepo repo = true ->
   Request.vdigest linked dig = true ->
   bstep (Stack.sv_b (Http.w_srv w)) (Iface.GetManifest repo dig) = (b', Outcome.Err e) ->
-  conf_err e ->
+  StackTransparent.conf_err e ->
   BinInt.Z.le
     (Bytes.blen
        (enc
@@ -996,11 +1003,11 @@ Theorem C03_transparent_GetManifest_err :
   exists w' : Http.world (Stack.srv B),
     Stack.stack_call linked hash subject_of media enc dec_errors dec_names dec_index redirect
       bstep o cc (Client.CGetManifest repo dig bufsz) w =
-    (w', Client.ORead (Outcome.Err (wire_error enc false e))) /\
+    (w', Client.ORead (Outcome.Err (StackTransparent.wire_error enc false e))) /\
     Http.w_srv w' =
     StackBase.after B (Http.w_srv w) b'
       (Server.ECall (Iface.GetManifest repo dig) (Outcome.Err e) :: nil).
-Proof. exact @transparent_GetManifest_err. Qed.
+Proof. exact @StackTransparent.transparent_GetManifest_err. Qed.
 Print Assumptions C03_transparent_GetManifest_err.
 
 (* GetTag by tag, digest sent by the server *)
@@ -1023,17 +1030,18 @@ Theorem C03_transparent_GetTag_ok :
   Request.vdigest linked (Iface.d_digest (Server.desc_of v)) = true ->
   Iface.d_size (Server.desc_of v) = Bytes.blen (Server.data_of v) ->
   BinInt.Z.le (Bytes.blen (Server.data_of v)) Request.max_int64 ->
-  content_of hash (Iface.d_digest (Server.desc_of v)) (Server.data_of v) ->
+  StackTransparent.content_of hash (Iface.d_digest (Server.desc_of v)) (Server.data_of v) ->
   exists w' : Http.world (Stack.srv B),
     Stack.stack_call linked hash subject_of media enc dec_errors dec_names dec_index redirect
       bstep o cc (Client.CGetTag repo tag bufsz) w =
     (w',
      Client.ORead
-       (Outcome.Ok (head_desc true (Server.desc_of v), Server.data_of v, Client.RdEOF))) /\
+       (Outcome.Ok
+          (StackTransparent.head_desc true (Server.desc_of v), Server.data_of v, Client.RdEOF))) /\
     Http.w_srv w' =
     StackBase.after B (Http.w_srv w) b'
       (Server.ECall (Iface.GetTag repo tag) (Outcome.Ok v) :: Server.ECloseR :: nil).
-Proof. exact @transparent_GetTag_ok. Qed.
+Proof. exact @StackTransparent.transparent_GetTag_ok. Qed.
 Print Assumptions C03_transparent_GetTag_ok.
 
 (* as above *)
@@ -1053,7 +1061,7 @@ Theorem C03_transparent_GetTag_err :
   Request.vrepo repo = true ->
   Request.vtag tag = true ->
   bstep (Stack.sv_b (Http.w_srv w)) (Iface.GetTag repo tag) = (b', Outcome.Err e) ->
-  conf_err e ->
+  StackTransparent.conf_err e ->
   BinInt.Z.le
     (Bytes.blen
        (enc
@@ -1074,11 +1082,11 @@ Theorem C03_transparent_GetTag_err :
   exists w' : Http.world (Stack.srv B),
     Stack.stack_call linked hash subject_of media enc dec_errors dec_names dec_index redirect
       bstep o cc (Client.CGetTag repo tag bufsz) w =
-    (w', Client.ORead (Outcome.Err (wire_error enc false e))) /\
+    (w', Client.ORead (Outcome.Err (StackTransparent.wire_error enc false e))) /\
     Http.w_srv w' =
     StackBase.after B (Http.w_srv w) b'
       (Server.ECall (Iface.GetTag repo tag) (Outcome.Err e) :: nil).
-Proof. exact @transparent_GetTag_err. Qed.
+Proof. exact @StackTransparent.transparent_GetTag_err. Qed.
 Print Assumptions C03_transparent_GetTag_err.
 
 (* OmitDigestFromTagGetResponse, manifest up to the in-memory threshold: the client recovers the digest by hashing the body *)
@@ -1109,7 +1117,7 @@ Theorem C03_transparent_GetTag_omitted_small :
      Client.ORead
        (Outcome.Ok
           ({|
-             Iface.d_media := media_or_octet (Iface.d_media (Server.desc_of v));
+             Iface.d_media := StackDesc.media_or_octet (Iface.d_media (Server.desc_of v));
              Iface.d_digest := Stack.digest_of hash (Server.data_of v);
              Iface.d_size := Iface.d_size (Server.desc_of v);
              Iface.d_artifact := nil
@@ -1117,7 +1125,7 @@ Theorem C03_transparent_GetTag_omitted_small :
     Http.w_srv w' =
     StackBase.after B (Http.w_srv w) b'
       (Server.ECall (Iface.GetTag repo tag) (Outcome.Ok v) :: Server.ECloseR :: nil).
-Proof. exact @transparent_GetTag_omitted_small. Qed.
+Proof. exact @StackTransparent.transparent_GetTag_omitted_small. Qed.
 Print Assumptions C03_transparent_GetTag_omitted_small.
 
 (* above the threshold: one extra HEAD, i.e. one extra ResolveTag reaches the backend, and the answer is still the backend's *)
@@ -1144,19 +1152,20 @@ Theorem C03_transparent_GetTag_omitted_large :
   bstep b' (Iface.ResolveTag repo tag) = (b'', Outcome.Ok v1) ->
   Request.vdigest linked (Iface.d_digest (Server.desc_of v1)) = true ->
   Iface.d_size (Server.desc_of v1) = Bytes.blen (Server.data_of v) ->
-  content_of hash (Iface.d_digest (Server.desc_of v1)) (Server.data_of v) ->
+  StackTransparent.content_of hash (Iface.d_digest (Server.desc_of v1)) (Server.data_of v) ->
   exists w' : Http.world (Stack.srv B),
     Stack.stack_call linked hash subject_of media enc dec_errors dec_names dec_index redirect
       bstep o cc (Client.CGetTag repo tag bufsz) w =
     (w',
      Client.ORead
-       (Outcome.Ok (head_desc true (Server.desc_of v1), Server.data_of v, Client.RdEOF))) /\
+       (Outcome.Ok
+          (StackTransparent.head_desc true (Server.desc_of v1), Server.data_of v, Client.RdEOF))) /\
     Http.w_srv w' =
     StackBase.after B
       (StackBase.after B (Http.w_srv w) b'
          (Server.ECall (Iface.GetTag repo tag) (Outcome.Ok v) :: Server.ECloseR :: nil)) b''
       (Server.ECall (Iface.ResolveTag repo tag) (Outcome.Ok v1) :: nil).
-Proof. exact @transparent_GetTag_omitted_large. Qed.
+Proof. exact @StackTransparent.transparent_GetTag_omitted_large. Qed.
 Print Assumptions C03_transparent_GetTag_omitted_large.
 
 (* PushManifest by tag or digest: one call with the caller's bytes and media type *)
@@ -1174,18 +1183,18 @@ Theorem C03_transparent_PushManifest_ok :
   Server.o_locs o = None ->
   med <> nil ->
   Request.vrepo repo = true ->
-  tag_or_valid_digest linked hash tag contents ->
+  StackTransparent.tag_or_valid_digest linked hash tag contents ->
   Server.subject_from_manifest subject_of med contents <> None ->
   bstep (Stack.sv_b (Http.w_srv w)) (Iface.PushManifest repo tag contents med) =
   (b', Outcome.Ok v) ->
   exists w' : Http.world (Stack.srv B),
     Stack.stack_call linked hash subject_of media enc dec_errors dec_names dec_index redirect
       bstep o cc (Client.CPushManifest repo tag contents med) w =
-    (w', Client.ODesc (Outcome.Ok (manifest_desc hash contents med))) /\
+    (w', Client.ODesc (Outcome.Ok (StackTransparent.manifest_desc hash contents med))) /\
     Http.w_srv w' =
     StackBase.after B (Http.w_srv w) b'
       (Server.ECall (Iface.PushManifest repo tag contents med) (Outcome.Ok v) :: nil).
-Proof. exact @transparent_PushManifest_ok. Qed.
+Proof. exact @StackTransparent.transparent_PushManifest_ok. Qed.
 Print Assumptions C03_transparent_PushManifest_ok.
 
 (* as above *)
@@ -1204,11 +1213,11 @@ Theorem C03_transparent_PushManifest_err :
     (med : list BinNums.N) (b' : B) (e : Errors.gerr),
   med <> nil ->
   Request.vrepo repo = true ->
-  tag_or_valid_digest linked hash tag contents ->
+  StackTransparent.tag_or_valid_digest linked hash tag contents ->
   Server.subject_from_manifest subject_of med contents <> None ->
   bstep (Stack.sv_b (Http.w_srv w)) (Iface.PushManifest repo tag contents med) =
   (b', Outcome.Err e) ->
-  conf_err e ->
+  StackTransparent.conf_err e ->
   BinInt.Z.le
     (Bytes.blen
        (enc
@@ -1229,11 +1238,11 @@ Theorem C03_transparent_PushManifest_err :
   exists w' : Http.world (Stack.srv B),
     Stack.stack_call linked hash subject_of media enc dec_errors dec_names dec_index redirect
       bstep o cc (Client.CPushManifest repo tag contents med) w =
-    (w', Client.ODesc (Outcome.Err (wire_error enc false e))) /\
+    (w', Client.ODesc (Outcome.Err (StackTransparent.wire_error enc false e))) /\
     Http.w_srv w' =
     StackBase.after B (Http.w_srv w) b'
       (Server.ECall (Iface.PushManifest repo tag contents med) (Outcome.Err e) :: nil).
-Proof. exact @transparent_PushManifest_err. Qed.
+Proof. exact @StackTransparent.transparent_PushManifest_err. Qed.
 Print Assumptions C03_transparent_PushManifest_err.
 
 (* GetBlobRange for every sendable range: the slice, and the whole blob's descriptor *)
@@ -1257,10 +1266,11 @@ Theorem C03_transparent_GetBlobRange_ok :
   bstep (Stack.sv_b (Http.w_srv w))
     (Iface.GetBlobRange repo dig o0 (StackRange.server_end o1)) = (
   b', Outcome.Ok v) ->
-  int64 (Iface.d_size (Server.desc_of v)) ->
+  StackDesc.int64 (Iface.d_size (Server.desc_of v)) ->
   BinInt.Z.le o0 (Iface.d_size (Server.desc_of v)) ->
   Bytes.blen (Server.data_of v) =
-  BinInt.Z.sub (range_end (Iface.d_size (Server.desc_of v)) (StackRange.server_end o1)) o0 ->
+  BinInt.Z.sub
+    (StackDesc.range_end (Iface.d_size (Server.desc_of v)) (StackRange.server_end o1)) o0 ->
   exists w' : Http.world (Stack.srv B),
     Stack.stack_call linked hash subject_of media enc dec_errors dec_names dec_index redirect
       bstep o cc (Client.CGetBlobRange repo dig o0 o1 bufsz) w =
@@ -1268,7 +1278,7 @@ Theorem C03_transparent_GetBlobRange_ok :
      Client.ORead
        (Outcome.Ok
           ({|
-             Iface.d_media := media_or_octet (Iface.d_media (Server.desc_of v));
+             Iface.d_media := StackDesc.media_or_octet (Iface.d_media (Server.desc_of v));
              Iface.d_digest := dig;
              Iface.d_size := Iface.d_size (Server.desc_of v);
              Iface.d_artifact := nil
@@ -1277,7 +1287,7 @@ Theorem C03_transparent_GetBlobRange_ok :
     StackBase.after B (Http.w_srv w) b'
       (Server.ECall (Iface.GetBlobRange repo dig o0 (StackRange.server_end o1)) (Outcome.Ok v)
        :: Server.ECloseR :: nil).
-Proof. exact @transparent_GetBlobRange_ok. Qed.
+Proof. exact @StackTransparent.transparent_GetBlobRange_ok. Qed.
 Print Assumptions C03_transparent_GetBlobRange_ok.
 
 (* as above *)
@@ -1302,7 +1312,7 @@ Theorem C03_transparent_GetBlobRange_err :
   bstep (Stack.sv_b (Http.w_srv w))
     (Iface.GetBlobRange repo dig o0 (StackRange.server_end o1)) = (
   b', Outcome.Err e) ->
-  conf_err e ->
+  StackTransparent.conf_err e ->
   BinInt.Z.le
     (Bytes.blen
        (enc
@@ -1323,12 +1333,12 @@ Theorem C03_transparent_GetBlobRange_err :
   exists w' : Http.world (Stack.srv B),
     Stack.stack_call linked hash subject_of media enc dec_errors dec_names dec_index redirect
       bstep o cc (Client.CGetBlobRange repo dig o0 o1 bufsz) w =
-    (w', Client.ORead (Outcome.Err (wire_error enc false e))) /\
+    (w', Client.ORead (Outcome.Err (StackTransparent.wire_error enc false e))) /\
     Http.w_srv w' =
     StackBase.after B (Http.w_srv w) b'
       (Server.ECall (Iface.GetBlobRange repo dig o0 (StackRange.server_end o1))
          (Outcome.Err e) :: nil).
-Proof. exact @transparent_GetBlobRange_err. Qed.
+Proof. exact @StackTransparent.transparent_GetBlobRange_err. Qed.
 Print Assumptions C03_transparent_GetBlobRange_err.
 
 (* GetBlobRange(0, negative) reaches the backend as GetBlob (same range by the interface's definition) *)
@@ -1348,7 +1358,7 @@ Theorem C03_GetBlobRange_whole_is_GetBlob :
     bstep o cc (Client.CGetBlobRange repo dig BinNums.Z0 o1 bufsz) w =
   Stack.stack_call linked hash subject_of media enc dec_errors dec_names dec_index redirect
     bstep o cc (Client.CGetBlob repo dig bufsz) w.
-Proof. exact @GetBlobRange_whole_is_GetBlob. Qed.
+Proof. exact @StackTransparent.GetBlobRange_whole_is_GetBlob. Qed.
 Print Assumptions C03_GetBlobRange_whole_is_GetBlob.
 
 (* Referrers: the backend's descriptors in order (the artifactType argument is the recorded deviation) *)
@@ -1362,7 +1372,6 @@ Theorem C03_transparent_Referrers_ok :
     (redirect : Bytes.bytes -> Bytes.bytes -> Bytes.bytes * Bytes.bytes) 
     (B : Type) (bstep : Server.backend B) (o : Server.opts) (cc : Stack.ccfg),
   (forall l : list Iface.desc, dec_index (enc (Server.JIndex l)) = Some l) ->
-  (forall j : Server.jval, BinInt.Z.le (Bytes.blen (enc j)) Request.max_int64) ->
   forall (w : Http.world (Stack.srv B)) (repo dig art : Bytes.bytes) 
     (budget : option nat) (b' : B) (v : Server.bval),
   Server.o_disable_referrers o = false ->
@@ -1370,6 +1379,7 @@ Theorem C03_transparent_Referrers_ok :
   Request.vdigest linked dig = true ->
   bstep (Stack.sv_b (Http.w_srv w)) (Iface.Referrers repo dig nil) = (b', Outcome.Ok v) ->
   Server.iter_err_of v = None ->
+  BinInt.Z.le (Bytes.blen (enc (Server.JIndex (Server.descs_of v)))) Request.max_int64 ->
   exists w' : Http.world (Stack.srv B),
     Stack.stack_call linked hash subject_of media enc dec_errors dec_names dec_index redirect
       bstep o cc (Client.CReferrers repo dig art budget) w =
@@ -1379,7 +1389,7 @@ Theorem C03_transparent_Referrers_ok :
     Http.w_srv w' =
     StackBase.after B (Http.w_srv w) b'
       (Server.ECall (Iface.Referrers repo dig nil) (Outcome.Ok v) :: nil).
-Proof. exact @transparent_Referrers_ok. Qed.
+Proof. exact @StackListingB.transparent_Referrers_ok. Qed.
 Print Assumptions C03_transparent_Referrers_ok.
 
 (* as above *)
@@ -1400,8 +1410,8 @@ Theorem C03_transparent_Referrers_err :
   Request.vrepo repo = true ->
   Request.vdigest linked dig = true ->
   bstep (Stack.sv_b (Http.w_srv w)) (Iface.Referrers repo dig nil) = (b', a) ->
-  listing_error a = Some e ->
-  conf_err e ->
+  StackDesc.listing_error a = Some e ->
+  StackTransparent.conf_err e ->
   BinInt.Z.le
     (Bytes.blen
        (enc
@@ -1422,10 +1432,10 @@ Theorem C03_transparent_Referrers_err :
   exists w' : Http.world (Stack.srv B),
     Stack.stack_call linked hash subject_of media enc dec_errors dec_names dec_index redirect
       bstep o cc (Client.CReferrers repo dig art budget) w =
-    (w', Client.ODescs (inr (wire_error enc false e) :: nil) Client.PDone) /\
+    (w', Client.ODescs (inr (StackTransparent.wire_error enc false e) :: nil) Client.PDone) /\
     Http.w_srv w' =
     StackBase.after B (Http.w_srv w) b' (Server.ECall (Iface.Referrers repo dig nil) a :: nil).
-Proof. exact @transparent_Referrers_err. Qed.
+Proof. exact @StackTransparent.transparent_Referrers_err. Qed.
 Print Assumptions C03_transparent_Referrers_err.
 
 (* PushBlob: the eight-call upload session the server performs stores exactly the caller's bytes under the caller's digest *)
@@ -1480,7 +1490,7 @@ Theorem C03_transparent_PushBlob_ok :
        :: Server.ECall (Iface.WWrite (Server.wid_of vw2) data) (Outcome.Ok vn)
           :: Server.ECall (Iface.WCommit (Server.wid_of vw2) (Iface.d_digest d))
                (Outcome.Ok vd) :: Server.ECall (Iface.WClose (Server.wid_of vw2)) rc2 :: nil).
-Proof. exact @transparent_PushBlob_ok. Qed.
+Proof. exact @StackTransparent.transparent_PushBlob_ok. Qed.
 Print Assumptions C03_transparent_PushBlob_ok.
 
 (* PushBlobChunked opens one upload session at the backend *)
@@ -1513,7 +1523,8 @@ Theorem C03_transparent_PushBlobChunked_start :
     (w',
      Outcome.Ok
        {|
-         Client.wr_chunk_size := BinInt.Z.max (default_or cs) (Server.n_of vcs);
+         Client.wr_chunk_size :=
+           BinInt.Z.max (StackTransparent.default_or cs) (Server.n_of vcs);
          Client.wr_closed := false;
          Client.wr_chunk := Some nil;
          Client.wr_close_err := None;
@@ -1529,7 +1540,7 @@ Theorem C03_transparent_PushBlobChunked_start :
        :: Server.ECall (Iface.WID (Server.wid_of vw)) (Outcome.Ok vid)
           :: Server.ECall (Iface.WChunkSize (Server.wid_of vw)) (Outcome.Ok vcs)
              :: Server.ECall (Iface.WClose (Server.wid_of vw)) rc :: nil).
-Proof. exact @transparent_PushBlobChunked_start. Qed.
+Proof. exact @StackTransparent.transparent_PushBlobChunked_start. Qed.
 Print Assumptions C03_transparent_PushBlobChunked_start.
 
 (* a flush of the client's chunk reaches the backend writer as one Write of exactly those bytes at exactly that offset *)
@@ -1548,7 +1559,7 @@ Theorem C03_transparent_flush_patch :
   let f := Client.wr_flushed wr in
   Request.vrepo repo = true ->
   StackUpload.good_upload_id id ->
-  writer_at wr repo id ->
+  StackTransparent.writer_at wr repo id ->
   data <> nil ->
   BinInt.Z.le BinNums.Z0 f ->
   BinInt.Z.le (BinInt.Z.add f (Bytes.blen data)) Request.max_int64 ->
@@ -1582,7 +1593,7 @@ Theorem C03_transparent_flush_patch :
           :: Server.ECall (Iface.WClose (Server.wid_of vw)) (Outcome.Ok vc)
              :: Server.ECall (Iface.WID (Server.wid_of vw)) (Outcome.Ok vid)
                 :: Server.ECall (Iface.WSize (Server.wid_of vw)) (Outcome.Ok vs) :: nil).
-Proof. exact @transparent_flush_patch. Qed.
+Proof. exact @StackTransparent.transparent_flush_patch. Qed.
 Print Assumptions C03_transparent_flush_patch.
 
 (* Commit sends the remaining bytes and the digest; the backend commits that digest *)
@@ -1602,7 +1613,7 @@ Theorem C03_transparent_commit :
   Server.o_locs o = None ->
   Request.vrepo repo = true ->
   StackUpload.good_upload_id id ->
-  writer_at wr repo id ->
+  StackTransparent.writer_at wr repo id ->
   Request.vdigest linked dg = true ->
   data <> nil ->
   BinInt.Z.le BinNums.Z0 f ->
@@ -1637,14 +1648,14 @@ Theorem C03_transparent_commit :
        :: Server.ECall (Iface.WWrite (Server.wid_of vw) data) (Outcome.Ok vn)
           :: Server.ECall (Iface.WCommit (Server.wid_of vw) dg) (Outcome.Ok vd)
              :: Server.ECall (Iface.WClose (Server.wid_of vw)) rc :: nil).
-Proof. exact @transparent_commit. Qed.
+Proof. exact @StackTransparent.transparent_commit. Qed.
 Print Assumptions C03_transparent_commit.
 
 (* the HTTP status of an error always survives a hop *)
 Theorem C03_wire_error_status :
   forall (enc : Server.jval -> Bytes.bytes) (head : bool) (e : Errors.gerr),
-  Errors.as_http (wire_error enc head e) = Some (Errors.marshal_status e).
-Proof. exact @wire_error_status. Qed.
+  Errors.as_http (StackTransparent.wire_error enc head e) = Some (Errors.marshal_status e).
+Proof. exact @StackTransparent.wire_error_status. Qed.
 Print Assumptions C03_wire_error_status.
 
 (* code and detail survive on responses that carry a body *)
@@ -1667,13 +1678,13 @@ Theorem C03_wire_error_body :
                                (BinNums.xO
                                   (BinNums.xO
                                      (BinNums.xO (BinNums.xO (BinNums.xO BinNums.xH)))))))))))))) ->
-  Errors.marshal_code (wire_error enc false e) = Errors.marshal_code e /\
-  Errors.marshal_detail (wire_error enc false e) = Errors.marshal_detail e /\
-  Errors.marshal_status (wire_error enc false e) = Errors.marshal_status e.
-Proof. exact @wire_error_body. Qed.
+  Errors.marshal_code (StackTransparent.wire_error enc false e) = Errors.marshal_code e /\
+  Errors.marshal_detail (StackTransparent.wire_error enc false e) = Errors.marshal_detail e /\
+  Errors.marshal_status (StackTransparent.wire_error enc false e) = Errors.marshal_status e.
+Proof. exact @StackTransparent.wire_error_body. Qed.
 Print Assumptions C03_wire_error_body.
 
-(* Tags through the pager: every page size >= 1, Link header or last= fallback: exactly the backend's listing after the start point *)
+(* Tags through the pager: every page size >= 1, Link header or last= fallback: exactly the backend's listing after the start point (the size bound is asked of the documents actually produced, Proofs/StackListingB.v) *)
 Theorem C03_transparent_Tags_ok :
   forall (linked : Ref.alg -> bool) (hash : Bytes.bytes -> Bytes.bytes -> Bytes.bytes)
     (subject_of : Bytes.bytes -> option (option Bytes.bytes))
@@ -1683,29 +1694,28 @@ Theorem C03_transparent_Tags_ok :
     (dec_index : Bytes.bytes -> option (list Iface.desc))
     (redirect : Bytes.bytes -> Bytes.bytes -> Bytes.bytes * Bytes.bytes) 
     (B : Type) (bstep : Server.backend B) (o : Server.opts) (cc : Stack.ccfg),
-  (forall j : Server.jval, BinInt.Z.le (Bytes.blen (enc j)) Request.max_int64) ->
   (forall (name : Bytes.bytes) (l : list Bytes.bytes),
    dec_names true (enc (Server.JTags name l)) = Some l) ->
   forall (w : Http.world (Stack.srv B)) (repo start : Bytes.bytes)
     (full : Bytes.bytes -> list Bytes.bytes),
   Request.vrepo repo = true ->
-  byte_list start = true ->
-  page_size_ok o cc ->
-  pages_well B bstep (Stack.sv_b (Http.w_srv w)) (Iface.Tags repo) full ->
+  RequestCodec.byte_list start = true ->
+  StackListing.page_size_ok o cc ->
+  StackListing.pages_well B bstep (Stack.sv_b (Http.w_srv w)) (Iface.Tags repo) full ->
+  StackListingB.pages_small enc cc (Server.JTags repo) full ->
   Datatypes.length (full start) < Stack.cc_fuel cc ->
   exists w' : Http.world (Stack.srv B),
     Stack.stack_call linked hash subject_of media enc dec_errors dec_names dec_index redirect
       bstep o cc (Client.CTags repo start None) w =
     (w', Client.ONames (List.map inl (full start)) Client.PDone) /\
-    Stack.sv_b (Http.w_srv w') = Stack.sv_b (Http.w_srv w) /\
     (exists starts : list Bytes.bytes,
-       Stack.sv_tr (Http.w_srv w') =
-       (Stack.sv_tr (Http.w_srv w) ++
-        List.map
-          (fun s0 : Bytes.bytes =>
-           Server.ECall (Iface.Tags repo s0) (Outcome.Ok (Server.VList (full s0) None)))
-          starts)%list).
-Proof. exact @transparent_Tags_ok. Qed.
+       Http.w_srv w' =
+       StackBase.after B (Http.w_srv w) (Stack.sv_b (Http.w_srv w))
+         (List.map
+            (fun s0 : Bytes.bytes =>
+             Server.ECall (Iface.Tags repo s0) (Outcome.Ok (Server.VList (full s0) None)))
+            starts)).
+Proof. exact @StackListingB.transparent_Tags_ok. Qed.
 Print Assumptions C03_transparent_Tags_ok.
 
 (* a failing listing ends with the backend's error *)
@@ -1723,12 +1733,12 @@ Theorem C03_transparent_Tags_err :
   forall (w : Http.world (Stack.srv B)) (repo start : Bytes.bytes) 
     (b' : B) (a : Server.bres) (e : Errors.gerr),
   Request.vrepo repo = true ->
-  byte_list start = true ->
-  page_size_ok o cc ->
+  RequestCodec.byte_list start = true ->
+  StackListing.page_size_ok o cc ->
   1 <= Stack.cc_fuel cc ->
   bstep (Stack.sv_b (Http.w_srv w)) (Iface.Tags repo start) = (b', a) ->
-  first_error a = Some e ->
-  conf_err e ->
+  StackListing.first_error a = Some e ->
+  StackTransparent.conf_err e ->
   BinInt.Z.le
     (Bytes.blen
        (enc
@@ -1749,13 +1759,13 @@ Theorem C03_transparent_Tags_err :
   exists w' : Http.world (Stack.srv B),
     Stack.stack_call linked hash subject_of media enc dec_errors dec_names dec_index redirect
       bstep o cc (Client.CTags repo start None) w =
-    (w', Client.ONames (inr (wire_error enc false e) :: nil) Client.PDone) /\
+    (w', Client.ONames (inr (StackTransparent.wire_error enc false e) :: nil) Client.PDone) /\
     Http.w_srv w' =
     StackBase.after B (Http.w_srv w) b' (Server.ECall (Iface.Tags repo start) a :: nil).
-Proof. exact @transparent_Tags_err. Qed.
+Proof. exact @StackListing.transparent_Tags_err. Qed.
 Print Assumptions C03_transparent_Tags_err.
 
-(* as above for Repositories *)
+(* as above for Repositories (the size bound is asked of the documents actually produced, Proofs/StackListingB.v) *)
 Theorem C03_transparent_Repositories_ok :
   forall (linked : Ref.alg -> bool) (hash : Bytes.bytes -> Bytes.bytes -> Bytes.bytes)
     (subject_of : Bytes.bytes -> option (option Bytes.bytes))
@@ -1765,27 +1775,26 @@ Theorem C03_transparent_Repositories_ok :
     (dec_index : Bytes.bytes -> option (list Iface.desc))
     (redirect : Bytes.bytes -> Bytes.bytes -> Bytes.bytes * Bytes.bytes) 
     (B : Type) (bstep : Server.backend B) (o : Server.opts) (cc : Stack.ccfg),
-  (forall j : Server.jval, BinInt.Z.le (Bytes.blen (enc j)) Request.max_int64) ->
   (forall l : list Bytes.bytes, dec_names false (enc (Server.JCatalog l)) = Some l) ->
   forall (w : Http.world (Stack.srv B)) (start : Bytes.bytes)
     (full : Bytes.bytes -> list Bytes.bytes),
-  byte_list start = true ->
-  page_size_ok o cc ->
-  pages_well B bstep (Stack.sv_b (Http.w_srv w)) Iface.Repositories full ->
+  RequestCodec.byte_list start = true ->
+  StackListing.page_size_ok o cc ->
+  StackListing.pages_well B bstep (Stack.sv_b (Http.w_srv w)) Iface.Repositories full ->
+  StackListingB.pages_small enc cc Server.JCatalog full ->
   Datatypes.length (full start) < Stack.cc_fuel cc ->
   exists w' : Http.world (Stack.srv B),
     Stack.stack_call linked hash subject_of media enc dec_errors dec_names dec_index redirect
       bstep o cc (Client.CRepositories start None) w =
     (w', Client.ONames (List.map inl (full start)) Client.PDone) /\
-    Stack.sv_b (Http.w_srv w') = Stack.sv_b (Http.w_srv w) /\
     (exists starts : list Bytes.bytes,
-       Stack.sv_tr (Http.w_srv w') =
-       (Stack.sv_tr (Http.w_srv w) ++
-        List.map
-          (fun s0 : Bytes.bytes =>
-           Server.ECall (Iface.Repositories s0) (Outcome.Ok (Server.VList (full s0) None)))
-          starts)%list).
-Proof. exact @transparent_Repositories_ok. Qed.
+       Http.w_srv w' =
+       StackBase.after B (Http.w_srv w) (Stack.sv_b (Http.w_srv w))
+         (List.map
+            (fun s0 : Bytes.bytes =>
+             Server.ECall (Iface.Repositories s0) (Outcome.Ok (Server.VList (full s0) None)))
+            starts)).
+Proof. exact @StackListingB.transparent_Repositories_ok. Qed.
 Print Assumptions C03_transparent_Repositories_ok.
 
 (* as above *)
@@ -1802,12 +1811,12 @@ Theorem C03_transparent_Repositories_err :
   (forall w : Errors.werr, dec_errors (enc (Server.JErr w)) = Some (w :: nil)%list) ->
   forall (w : Http.world (Stack.srv B)) (start : Bytes.bytes) (b' : B) 
     (a : Server.bres) (e : Errors.gerr),
-  byte_list start = true ->
-  page_size_ok o cc ->
+  RequestCodec.byte_list start = true ->
+  StackListing.page_size_ok o cc ->
   1 <= Stack.cc_fuel cc ->
   bstep (Stack.sv_b (Http.w_srv w)) (Iface.Repositories start) = (b', a) ->
-  first_error a = Some e ->
-  conf_err e ->
+  StackListing.first_error a = Some e ->
+  StackTransparent.conf_err e ->
   BinInt.Z.le
     (Bytes.blen
        (enc
@@ -1828,10 +1837,10 @@ Theorem C03_transparent_Repositories_err :
   exists w' : Http.world (Stack.srv B),
     Stack.stack_call linked hash subject_of media enc dec_errors dec_names dec_index redirect
       bstep o cc (Client.CRepositories start None) w =
-    (w', Client.ONames (inr (wire_error enc false e) :: nil) Client.PDone) /\
+    (w', Client.ONames (inr (StackTransparent.wire_error enc false e) :: nil) Client.PDone) /\
     Http.w_srv w' =
     StackBase.after B (Http.w_srv w) b' (Server.ECall (Iface.Repositories start) a :: nil).
-Proof. exact @transparent_Repositories_err. Qed.
+Proof. exact @StackListing.transparent_Repositories_err. Qed.
 Print Assumptions C03_transparent_Repositories_err.
 
 (* two hops (client - server - client - server - backend), ResolveBlob *)
@@ -1846,21 +1855,21 @@ Theorem C03_two_hops_ResolveBlob :
     (B : Type) (bstep : Server.backend B) (o1 o2 : Server.opts) (cc1 cc2 : Stack.ccfg)
     (w : Http.world (Stack.srv (Stack.sstate B))) (repo dig : Bytes.bytes) 
     (b' : B) (v : Server.bval),
-  clean (inner_state B w) ->
+  StackTwoHops.clean (StackTwoHops.inner_state B w) ->
   Request.vrepo repo = true ->
   Request.vdigest linked dig = true ->
-  bstep (Stack.sv_b (Stack.st_srv (inner_state B w))) (Iface.ResolveBlob repo dig) =
-  (b', Outcome.Ok v) ->
-  conf_desc linked (Server.desc_of v) ->
+  bstep (Stack.sv_b (Stack.st_srv (StackTwoHops.inner_state B w)))
+    (Iface.ResolveBlob repo dig) = (b', Outcome.Ok v) ->
+  StackTransparent.conf_desc linked (Server.desc_of v) ->
   exists w' : Http.world (Stack.srv (Stack.sstate B)),
     Stack.stack_call linked hash subject_of media enc dec_errors dec_names dec_index redirect
       (Stack.stack_bstep linked hash subject_of media enc dec_errors dec_names dec_index
          redirect bstep o1 cc1) o2 cc2 (Client.CResolveBlob repo dig) w =
-    (w', Client.ODesc (Outcome.Ok (head_desc false (Server.desc_of v)))) /\
-    Stack.sv_b (Stack.st_srv (inner_state B w')) = b' /\
-    Stack.sv_tr (Stack.st_srv (inner_state B w')) =
+    (w', Client.ODesc (Outcome.Ok (StackTransparent.head_desc false (Server.desc_of v)))) /\
+    Stack.sv_b (Stack.st_srv (StackTwoHops.inner_state B w')) = b' /\
+    Stack.sv_tr (Stack.st_srv (StackTwoHops.inner_state B w')) =
     (Server.ECall (Iface.ResolveBlob repo dig) (Outcome.Ok v) :: nil)%list.
-Proof. exact @two_hops_ResolveBlob. Qed.
+Proof. exact @StackTwoHops.two_hops_ResolveBlob. Qed.
 Print Assumptions C03_two_hops_ResolveBlob.
 
 (* two hops: the status survives both *)
@@ -1878,12 +1887,12 @@ Theorem C03_two_hops_ResolveBlob_err :
   forall (o1 o2 : Server.opts) (cc1 cc2 : Stack.ccfg)
     (w : Http.world (Stack.srv (Stack.sstate B))) (repo dig : Bytes.bytes) 
     (b' : B) (e : Errors.gerr),
-  clean (inner_state B w) ->
+  StackTwoHops.clean (StackTwoHops.inner_state B w) ->
   Request.vrepo repo = true ->
   Request.vdigest linked dig = true ->
-  bstep (Stack.sv_b (Stack.st_srv (inner_state B w))) (Iface.ResolveBlob repo dig) =
-  (b', Outcome.Err e) ->
-  conf_err e ->
+  bstep (Stack.sv_b (Stack.st_srv (StackTwoHops.inner_state B w)))
+    (Iface.ResolveBlob repo dig) = (b', Outcome.Err e) ->
+  StackTransparent.conf_err e ->
   BinInt.Z.le
     (Bytes.blen
        (enc
@@ -1907,7 +1916,7 @@ Theorem C03_two_hops_ResolveBlob_err :
           (Server.JErr
              (Errors.r_err
                 (Errors.marshal_error Errors.go_sprefix Errors.go_cprefix
-                   (wire_error enc true e))))))
+                   (StackTransparent.wire_error enc true e))))))
     (BinNums.Zpos
        (BinNums.xO
           (BinNums.xO
@@ -1926,10 +1935,10 @@ Theorem C03_two_hops_ResolveBlob_err :
          redirect bstep o1 cc1) o2 cc2 (Client.CResolveBlob repo dig) w =
     (w', Client.ODesc (Outcome.Err e2)) /\
     Errors.as_http e2 = Some (Errors.marshal_status e) /\
-    Stack.sv_b (Stack.st_srv (inner_state B w')) = b' /\
-    Stack.sv_tr (Stack.st_srv (inner_state B w')) =
+    Stack.sv_b (Stack.st_srv (StackTwoHops.inner_state B w')) = b' /\
+    Stack.sv_tr (Stack.st_srv (StackTwoHops.inner_state B w')) =
     (Server.ECall (Iface.ResolveBlob repo dig) (Outcome.Err e) :: nil)%list.
-Proof. exact @two_hops_ResolveBlob_err. Qed.
+Proof. exact @StackTwoHops.two_hops_ResolveBlob_err. Qed.
 Print Assumptions C03_two_hops_ResolveBlob_err.
 
 (* two hops, GetBlob *)
@@ -1944,18 +1953,18 @@ Theorem C03_two_hops_GetBlob :
     (B : Type) (bstep : Server.backend B) (o1 o2 : Server.opts) (cc1 cc2 : Stack.ccfg)
     (w : Http.world (Stack.srv (Stack.sstate B))) (repo dig : Bytes.bytes) 
     (bufsz : nat) (b' : B) (v : Server.bval),
-  clean (inner_state B w) ->
+  StackTwoHops.clean (StackTwoHops.inner_state B w) ->
   Server.o_locs o1 = None ->
   Server.o_locs o2 = None ->
   1 <= Stack.cc_bufsz cc1 ->
   1 <= bufsz ->
   Request.vrepo repo = true ->
   Request.vdigest linked dig = true ->
-  bstep (Stack.sv_b (Stack.st_srv (inner_state B w))) (Iface.GetBlob repo dig) =
+  bstep (Stack.sv_b (Stack.st_srv (StackTwoHops.inner_state B w))) (Iface.GetBlob repo dig) =
   (b', Outcome.Ok v) ->
   Iface.d_size (Server.desc_of v) = Bytes.blen (Server.data_of v) ->
   BinInt.Z.le (Bytes.blen (Server.data_of v)) Request.max_int64 ->
-  content_of hash dig (Server.data_of v) ->
+  StackTransparent.content_of hash dig (Server.data_of v) ->
   exists w' : Http.world (Stack.srv (Stack.sstate B)),
     Stack.stack_call linked hash subject_of media enc dec_errors dec_names dec_index redirect
       (Stack.stack_bstep linked hash subject_of media enc dec_errors dec_names dec_index
@@ -1964,15 +1973,15 @@ Theorem C03_two_hops_GetBlob :
      Client.ORead
        (Outcome.Ok
           ({|
-             Iface.d_media := media_or_octet (Iface.d_media (Server.desc_of v));
+             Iface.d_media := StackDesc.media_or_octet (Iface.d_media (Server.desc_of v));
              Iface.d_digest := dig;
              Iface.d_size := Iface.d_size (Server.desc_of v);
              Iface.d_artifact := nil
            |}, Server.data_of v, Client.RdEOF))) /\
-    Stack.sv_b (Stack.st_srv (inner_state B w')) = b' /\
-    Stack.sv_tr (Stack.st_srv (inner_state B w')) =
+    Stack.sv_b (Stack.st_srv (StackTwoHops.inner_state B w')) = b' /\
+    Stack.sv_tr (Stack.st_srv (StackTwoHops.inner_state B w')) =
     (Server.ECall (Iface.GetBlob repo dig) (Outcome.Ok v) :: Server.ECloseR :: nil)%list.
-Proof. exact @two_hops_GetBlob. Qed.
+Proof. exact @StackTwoHops.two_hops_GetBlob. Qed.
 Print Assumptions C03_two_hops_GetBlob.
 
 (* as above *)
@@ -1990,14 +1999,14 @@ Theorem C03_two_hops_GetBlob_err :
   forall (o1 o2 : Server.opts) (cc1 cc2 : Stack.ccfg)
     (w : Http.world (Stack.srv (Stack.sstate B))) (repo dig : Bytes.bytes) 
     (bufsz : nat) (b' : B) (e : Errors.gerr),
-  clean (inner_state B w) ->
+  StackTwoHops.clean (StackTwoHops.inner_state B w) ->
   Server.o_locs o1 = None ->
   Server.o_locs o2 = None ->
   Request.vrepo repo = true ->
   Request.vdigest linked dig = true ->
-  bstep (Stack.sv_b (Stack.st_srv (inner_state B w))) (Iface.GetBlob repo dig) =
+  bstep (Stack.sv_b (Stack.st_srv (StackTwoHops.inner_state B w))) (Iface.GetBlob repo dig) =
   (b', Outcome.Err e) ->
-  conf_err e ->
+  StackTransparent.conf_err e ->
   BinInt.Z.le
     (Bytes.blen
        (enc
@@ -2021,7 +2030,7 @@ Theorem C03_two_hops_GetBlob_err :
           (Server.JErr
              (Errors.r_err
                 (Errors.marshal_error Errors.go_sprefix Errors.go_cprefix
-                   (wire_error enc false e))))))
+                   (StackTransparent.wire_error enc false e))))))
     (BinNums.Zpos
        (BinNums.xO
           (BinNums.xO
@@ -2042,10 +2051,10 @@ Theorem C03_two_hops_GetBlob_err :
     Errors.marshal_code e2 = Errors.marshal_code e /\
     Errors.marshal_detail e2 = Errors.marshal_detail e /\
     Errors.marshal_status e2 = Errors.marshal_status e /\
-    Stack.sv_b (Stack.st_srv (inner_state B w')) = b' /\
-    Stack.sv_tr (Stack.st_srv (inner_state B w')) =
+    Stack.sv_b (Stack.st_srv (StackTwoHops.inner_state B w')) = b' /\
+    Stack.sv_tr (Stack.st_srv (StackTwoHops.inner_state B w')) =
     (Server.ECall (Iface.GetBlob repo dig) (Outcome.Err e) :: nil)%list.
-Proof. exact @two_hops_GetBlob_err. Qed.
+Proof. exact @StackTwoHops.two_hops_GetBlob_err. Qed.
 Print Assumptions C03_two_hops_GetBlob_err.
 
 (* two hops, DeleteTag *)
@@ -2060,49 +2069,543 @@ Theorem C03_two_hops_DeleteTag :
     (B : Type) (bstep : Server.backend B) (o1 o2 : Server.opts) (cc1 cc2 : Stack.ccfg)
     (w : Http.world (Stack.srv (Stack.sstate B))) (repo tag : Bytes.bytes) 
     (b' : B) (v : Server.bval),
-  clean (inner_state B w) ->
+  StackTwoHops.clean (StackTwoHops.inner_state B w) ->
   Request.vrepo repo = true ->
   Request.vtag tag = true ->
-  bstep (Stack.sv_b (Stack.st_srv (inner_state B w))) (Iface.DeleteTag repo tag) =
+  bstep (Stack.sv_b (Stack.st_srv (StackTwoHops.inner_state B w))) (Iface.DeleteTag repo tag) =
   (b', Outcome.Ok v) ->
   exists w' : Http.world (Stack.srv (Stack.sstate B)),
     Stack.stack_call linked hash subject_of media enc dec_errors dec_names dec_index redirect
       (Stack.stack_bstep linked hash subject_of media enc dec_errors dec_names dec_index
          redirect bstep o1 cc1) o2 cc2 (Client.CDeleteTag repo tag) w =
     (w', Client.OUnit (Outcome.Ok tt)) /\
-    Stack.sv_b (Stack.st_srv (inner_state B w')) = b' /\
-    Stack.sv_tr (Stack.st_srv (inner_state B w')) =
+    Stack.sv_b (Stack.st_srv (StackTwoHops.inner_state B w')) = b' /\
+    Stack.sv_tr (Stack.st_srv (StackTwoHops.inner_state B w')) =
     (Server.ECall (Iface.DeleteTag repo tag) (Outcome.Ok v) :: nil)%list.
-Proof. exact @two_hops_DeleteTag. Qed.
+Proof. exact @StackTwoHops.two_hops_DeleteTag. Qed.
 Print Assumptions C03_two_hops_DeleteTag.
 
 (* RECORDED DEVIATION (known finding C03-mount-size), witness on the ocimem model: PushBlob then MountBlob answers size 100 directly and 0 through the stack *)
 Theorem C03_transparent_MountBlob_refuted :
-  exists h : list Iface.op, ~ transparent_on StackRun.default_opts StackRun.default_ccfg h.
-Proof. exact @transparent_MountBlob_refuted. Qed.
+  exists h : list Iface.op,
+  ~ StackRefuted.transparent_on StackRun.default_opts StackRun.default_ccfg h.
+Proof. exact @StackRefuted.transparent_MountBlob_refuted. Qed.
 Print Assumptions C03_transparent_MountBlob_refuted.
 
 (* RECORDED DEVIATION (C03-range-unsendable): GetBlobRange 5 5 is the empty range directly and 416 through the stack, the backend is never asked *)
 Theorem C03_transparent_GetBlobRange_empty_refuted :
-  exists h : list Iface.op, ~ transparent_on StackRun.default_opts StackRun.default_ccfg h.
-Proof. exact @transparent_GetBlobRange_empty_refuted. Qed.
+  exists h : list Iface.op,
+  ~ StackRefuted.transparent_on StackRun.default_opts StackRun.default_ccfg h.
+Proof. exact @StackRefuted.transparent_GetBlobRange_empty_refuted. Qed.
 Print Assumptions C03_transparent_GetBlobRange_empty_refuted.
 
 (* RECORDED DEVIATION (C03-range-unsendable): a reversed range on an unknown blob is BLOB_UNKNOWN directly and UNKNOWN through the stack *)
 Theorem C03_transparent_GetBlobRange_unasked_refuted :
-  exists h : list Iface.op, ~ transparent_on StackRun.default_opts StackRun.default_ccfg h.
-Proof. exact @transparent_GetBlobRange_unasked_refuted. Qed.
+  exists h : list Iface.op,
+  ~ StackRefuted.transparent_on StackRun.default_opts StackRun.default_ccfg h.
+Proof. exact @StackRefuted.transparent_GetBlobRange_unasked_refuted. Qed.
 Print Assumptions C03_transparent_GetBlobRange_unasked_refuted.
 
 (* RECORDED DEVIATION (C03-blob-media-type): a blob pushed with media type x-custom reads back as application/octet-stream through the stack *)
 Theorem C03_transparent_PushBlob_media_refuted :
-  exists h : list Iface.op, ~ transparent_on StackRun.default_opts StackRun.default_ccfg h.
-Proof. exact @transparent_PushBlob_media_refuted. Qed.
+  exists h : list Iface.op,
+  ~ StackRefuted.transparent_on StackRun.default_opts StackRun.default_ccfg h.
+Proof. exact @StackRefuted.transparent_PushBlob_media_refuted. Qed.
 Print Assumptions C03_transparent_PushBlob_media_refuted.
 
 (* by design of MaxListPageSize: a client page size above the server's limit is refused UNSUPPORTED *)
 Theorem C03_transparent_Tags_page_size_refuted :
-  exists h : list Iface.op, ~ transparent_on max2 StackRun.default_ccfg h.
-Proof. exact @transparent_Tags_page_size_refuted. Qed.
+  exists h : list Iface.op,
+  ~ StackRefuted.transparent_on StackRefuted.max2 StackRun.default_ccfg h.
+Proof. exact @StackRefuted.transparent_Tags_page_size_refuted. Qed.
 Print Assumptions C03_transparent_Tags_page_size_refuted.
+
+(* ONE statement for the 13 single-request methods, success and failure: a step of the stack runner over any backend answering conformingly returns view(answer), leaves the backend in the state after exactly the dispatched call, and records exactly that call *)
+Theorem C03_step_one :
+  forall (linked : Ref.alg -> bool) (hash : Bytes.bytes -> Bytes.bytes -> Bytes.bytes)
+    (subject_of : Bytes.bytes -> option (option Bytes.bytes))
+    (media : Bytes.bytes -> Bytes.bytes) (enc : Server.jval -> Bytes.bytes)
+    (dec_errors : Bytes.bytes -> option (list Errors.werr))
+    (dec_names : bool -> Bytes.bytes -> option (list Bytes.bytes))
+    (dec_index : Bytes.bytes -> option (list Iface.desc))
+    (redirect : Bytes.bytes -> Bytes.bytes -> Bytes.bytes * Bytes.bytes) 
+    (B : Type) (bstep : Server.backend B) (o : Server.opts) (cc : Stack.ccfg),
+  media StackBase.json_ct = StackBase.json_ct ->
+  (forall w : Errors.werr, dec_errors (enc (Server.JErr w)) = Some (w :: nil)%list) ->
+  (forall l : list Iface.desc, dec_index (enc (Server.JIndex l)) = Some l) ->
+  Server.o_locs o = None ->
+  1 <= Stack.cc_bufsz cc ->
+  forall (st : Stack.sstate B) (c : Iface.op) (b' : B) (r : Server.bres),
+  StackStep.one_call c = true ->
+  StackStep.wf_op linked hash subject_of c ->
+  StackTwoHops.clean st ->
+  bstep (Stack.sv_b (Stack.st_srv st)) (StackStep.bop c) = (b', r) ->
+  StackStep.conf_answer linked hash enc o c r ->
+  StackStep.tag_small o c r ->
+  StackStep.referrers_ok o c ->
+  Stack.stack_bstep linked hash subject_of media enc dec_errors dec_names dec_index redirect
+    bstep o cc st c =
+  (StackStep.stepped B st b' (StackStep.events c r), StackStep.view hash enc o c r).
+Proof. exact @StackStep.step_one. Qed.
+Print Assumptions C03_step_one.
+
+(* HISTORY LEVEL: for every backend satisfying the contract Conforming, every option set and every admissible history of the 16 one-call methods, the run through the stack and the direct run agree result by result (bres_equiv) and end in related backend states *)
+Theorem C03_history_transparent :
+  forall (linked : Ref.alg -> bool) (hash : Bytes.bytes -> Bytes.bytes -> Bytes.bytes)
+    (subject_of : Bytes.bytes -> option (option Bytes.bytes))
+    (media : Bytes.bytes -> Bytes.bytes) (enc : Server.jval -> Bytes.bytes)
+    (dec_errors : Bytes.bytes -> option (list Errors.werr))
+    (dec_names : bool -> Bytes.bytes -> option (list Bytes.bytes))
+    (dec_index : Bytes.bytes -> option (list Iface.desc))
+    (redirect : Bytes.bytes -> Bytes.bytes -> Bytes.bytes * Bytes.bytes) 
+    (St : Type) (bstep : Server.backend St) (o : Server.opts) (cc : Stack.ccfg)
+    (Inv : St -> Prop) (sim : St -> St -> Prop),
+  StackHistory.Conforming linked hash subject_of enc St bstep o Inv sim ->
+  media StackBase.json_ct = StackBase.json_ct ->
+  (forall w : Errors.werr, dec_errors (enc (Server.JErr w)) = Some (w :: nil)%list) ->
+  (forall l : list Iface.desc, dec_index (enc (Server.JIndex l)) = Some l) ->
+  (forall (name : Bytes.bytes) (l : list Bytes.bytes),
+   dec_names true (enc (Server.JTags name l)) = Some l) ->
+  (forall l : list Bytes.bytes, dec_names false (enc (Server.JCatalog l)) = Some l) ->
+  Server.o_locs o = None ->
+  1 <= Stack.cc_bufsz cc ->
+  forall (b : St) (h : list Iface.op),
+  Inv b ->
+  StackHistory.admissible linked hash subject_of enc St bstep o cc b h ->
+  StackHistory.Forall3 StackHistory.bres_equiv h (snd (StackHistory.brun bstep b h))
+    (snd
+       (StackHistory.brun
+          (Stack.stack_bstep linked hash subject_of media enc dec_errors dec_names dec_index
+             redirect bstep o cc) (Stack.sstate0 b) h)) /\
+  sim (fst (StackHistory.brun bstep b h))
+    (Stack.sv_b
+       (Stack.st_srv
+          (fst
+             (StackHistory.brun
+                (Stack.stack_bstep linked hash subject_of media enc dec_errors dec_names
+                   dec_index redirect bstep o cc) (Stack.sstate0 b) h)))) /\
+  StackTwoHops.clean
+    (fst
+       (StackHistory.brun
+          (Stack.stack_bstep linked hash subject_of media enc dec_errors dec_names dec_index
+             redirect bstep o cc) (Stack.sstate0 b) h)).
+Proof. exact @StackHistory.history_transparent. Qed.
+Print Assumptions C03_history_transparent.
+
+(* the same on the history runner of Obs/StackRun.v (no JSON hypothesis left: the concrete encoders are discharged) *)
+Theorem C03_history_transparent_run :
+  forall (so : StackRun.soracles) (o : Server.opts) (cc : Stack.ccfg)
+    (St : Type) (bstep : Server.backend St) (Inv : St -> Prop) (sim : St -> St -> Prop)
+    (b : St) (h : list Iface.op),
+  StackHistory.Conforming (StackRun.so_linked so) (StackRun.so_hash so)
+    (StackRun.so_subject so) StackRun.enc0 St bstep o Inv sim ->
+  Server.o_locs o = None ->
+  1 <= Stack.cc_bufsz cc ->
+  Inv b ->
+  StackHistory.admissible (StackRun.so_linked so) (StackRun.so_hash so)
+    (StackRun.so_subject so) StackRun.enc0 St bstep o cc b h ->
+  StackHistory.Forall3 StackHistoryRun.result_equiv h
+    (snd (Iface.run (Stack.registry_of_backend bstep) b h))
+    (snd (Iface.run (StackRun.stack_step so o cc bstep) (Stack.sstate0 b) h)) /\
+  sim (fst (Iface.run (Stack.registry_of_backend bstep) b h))
+    (Stack.sv_b
+       (Stack.st_srv (fst (Iface.run (StackRun.stack_step so o cc bstep) (Stack.sstate0 b) h)))).
+Proof. exact @StackHistoryRun.history_transparent_run. Qed.
+Print Assumptions C03_history_transparent_run.
+
+(* the contract is inhabited: the ocimem model satisfies Conforming (ImmutableTags off, sane oracles) *)
+Theorem C03_mem_conforming :
+  forall (orc : MemObs.oracles) (more : list (Bytes.bytes * Bytes.bytes * Bytes.bytes)),
+  StackMem.orc_sane orc more ->
+  forall o : Server.opts,
+  StackHistory.Conforming (fun _ : Ref.alg => true) (StackRun.orc_hashhex orc more)
+    (StackRun.orc_subject orc) StackRun.enc0 Mem.state (StackMem.mstep orc) o
+    (StackMem.InvM orc) StackMem.simM.
+Proof. exact @StackMem.mem_conforming. Qed.
+Print Assumptions C03_mem_conforming.
+
+(* hence: client + server over ocimem is transparent for every admissible history *)
+Theorem C03_mem_history_transparent :
+  forall (orc : MemObs.oracles) (more : list (Bytes.bytes * Bytes.bytes * Bytes.bytes))
+    (sv : Server.opts) (cc : Stack.ccfg) (h : list Iface.op),
+  StackMem.orc_sane orc more ->
+  Server.o_locs sv = None ->
+  1 <= Stack.cc_bufsz cc ->
+  StackMemRun.mem_admissible orc more sv cc Mem.init h ->
+  StackHistory.Forall3 StackHistoryRun.result_equiv h
+    (snd (Iface.run (Stack.registry_of_backend (StackMem.mstep orc)) Mem.init h))
+    (snd (Iface.run (StackRun.one_hop orc more false sv cc) (Stack.sstate0 Mem.init) h)) /\
+  StackMem.simM (fst (Iface.run (Stack.registry_of_backend (StackMem.mstep orc)) Mem.init h))
+    (Stack.sv_b
+       (Stack.st_srv
+          (fst (Iface.run (StackRun.one_hop orc more false sv cc) (Stack.sstate0 Mem.init) h)))).
+Proof. exact @StackMemRun.mem_history_transparent. Qed.
+Print Assumptions C03_mem_history_transparent.
+
+(* upload protocol: the invariant relating the client writer (size, flushed, chunk, location), the backend writer buffer and the bytes written so far is preserved by every sequence of Write / Size / ChunkSize / Cancel / Close, for every partition of the content and every chunk size *)
+Theorem C03_winv_ops :
+  forall (linked : Ref.alg -> bool) (hash : Bytes.bytes -> Bytes.bytes -> Bytes.bytes)
+    (subject_of : Bytes.bytes -> option (option Bytes.bytes))
+    (media : Bytes.bytes -> Bytes.bytes) (enc : Server.jval -> Bytes.bytes)
+    (dec_errors : Bytes.bytes -> option (list Errors.werr))
+    (dec_names : bool -> Bytes.bytes -> option (list Bytes.bytes))
+    (dec_index : Bytes.bytes -> option (list Iface.desc))
+    (redirect : Bytes.bytes -> Bytes.bytes -> Bytes.bytes * Bytes.bytes) 
+    (B : Type) (bstep : Server.backend B) (o : Server.opts) (repo id : Bytes.bytes),
+  Request.vrepo repo = true ->
+  StackUpload.good_upload_id id ->
+  forall (Upl : B -> Bytes.bytes -> Prop) (accepts : Bytes.bytes -> Bytes.bytes -> Prop)
+    (Stored : B -> Bytes.bytes -> Bytes.bytes -> Prop),
+  StackUploadInv.AppendUpload linked B bstep repo id Upl accepts Stored ->
+  forall (ops : list Client.wop) (w : Http.world (Stack.srv B)) (wr : Client.writer)
+    (data : Bytes.bytes),
+  StackUploadInv.WInv B repo id Upl wr (Stack.sv_b (Http.w_srv w)) data ->
+  List.forallb StackUploadInv.pre_commit ops = true ->
+  BinInt.Z.le (BinInt.Z.add (Bytes.blen data) (Bytes.blen (StackUploadInv.all_written ops)))
+    Request.max_int64 ->
+  let
+  '(w', wr', rs) :=
+   StackUploadInv.run_wops linked hash subject_of media enc dec_errors dec_names dec_index
+     redirect B bstep o wr ops w in
+   StackUploadInv.WInv B repo id Upl wr' (Stack.sv_b (Http.w_srv w'))
+     (data ++ StackUploadInv.all_written ops)%list /\
+   StackUploadInv.answers_ok wr data ops rs /\
+   Stack.sv_outside (Http.w_srv w') = Stack.sv_outside (Http.w_srv w).
+Proof. exact @StackUploadInv.winv_ops. Qed.
+Print Assumptions C03_winv_ops.
+
+(* so Commit stores exactly the concatenation of what was written *)
+Theorem C03_commit_stores :
+  forall (linked : Ref.alg -> bool) (hash : Bytes.bytes -> Bytes.bytes -> Bytes.bytes)
+    (subject_of : Bytes.bytes -> option (option Bytes.bytes))
+    (media : Bytes.bytes -> Bytes.bytes) (enc : Server.jval -> Bytes.bytes)
+    (dec_errors : Bytes.bytes -> option (list Errors.werr))
+    (dec_names : bool -> Bytes.bytes -> option (list Bytes.bytes))
+    (dec_index : Bytes.bytes -> option (list Iface.desc))
+    (redirect : Bytes.bytes -> Bytes.bytes -> Bytes.bytes * Bytes.bytes) 
+    (B : Type) (bstep : Server.backend B) (o : Server.opts) (repo id : Bytes.bytes),
+  Request.vrepo repo = true ->
+  StackUpload.good_upload_id id ->
+  Server.o_locs o = None ->
+  forall (Upl : B -> Bytes.bytes -> Prop) (accepts : Bytes.bytes -> Bytes.bytes -> Prop)
+    (Stored : B -> Bytes.bytes -> Bytes.bytes -> Prop),
+  StackUploadInv.AppendUpload linked B bstep repo id Upl accepts Stored ->
+  forall (w : Http.world (Stack.srv B)) (wr : Client.writer) (data dg : Bytes.bytes),
+  StackUploadInv.WInv B repo id Upl wr (Stack.sv_b (Http.w_srv w)) data ->
+  Request.vdigest linked dg = true ->
+  accepts dg data ->
+  BinInt.Z.le (Bytes.blen data) Request.max_int64 ->
+  exists (w' : Http.world (Stack.srv B)) (wr' : Client.writer),
+    Client.writer_op (Stack.srv B)
+      (Stack.serve_stack linked hash subject_of enc redirect bstep o)
+      (Stack.stack_env linked hash media dec_errors dec_names dec_index) Client.current wr
+      (Client.WoCommit dg) w =
+    (w',
+     (wr',
+      Client.WrDesc
+        (Outcome.Ok
+           {|
+             Iface.d_media := Client.octet_stream;
+             Iface.d_digest := dg;
+             Iface.d_size := Bytes.blen data;
+             Iface.d_artifact := nil
+           |}))) /\ Stored (Stack.sv_b (Http.w_srv w')) dg data.
+Proof. exact @StackUploadInv.commit_stores. Qed.
+Print Assumptions C03_commit_stores.
+
+(* ocimem is such an append-buffer backend *)
+Theorem C03_mem_append_upload :
+  forall (orc : MemObs.oracles) (repo id : Bytes.bytes),
+  StackUploadInv.AppendUpload (fun _ : Ref.alg => true) Mem.state 
+    (StackMem.mstep orc) repo id (StackUploadMem.m_upl orc repo id)
+    (StackUploadMem.m_accepts orc) (StackUploadMem.m_stored repo).
+Proof. exact @StackUploadMem.mem_append_upload. Qed.
+Print Assumptions C03_mem_append_upload.
+
+(* Commit with an empty chunk *)
+Theorem C03_transparent_commit_empty :
+  forall (linked : Ref.alg -> bool) (hash : Bytes.bytes -> Bytes.bytes -> Bytes.bytes)
+    (subject_of : Bytes.bytes -> option (option Bytes.bytes))
+    (media : Bytes.bytes -> Bytes.bytes) (enc : Server.jval -> Bytes.bytes)
+    (dec_errors : Bytes.bytes -> option (list Errors.werr))
+    (dec_names : bool -> Bytes.bytes -> option (list Bytes.bytes))
+    (dec_index : Bytes.bytes -> option (list Iface.desc))
+    (redirect : Bytes.bytes -> Bytes.bytes -> Bytes.bytes * Bytes.bytes) 
+    (B : Type) (bstep : Server.backend B) (o : Server.opts) (w : Http.world (Stack.srv B))
+    (wr : Client.writer) (repo id dg : Bytes.bytes) (b1 b3 b4 : B) 
+    (vw vd : Server.bval) (rc : Server.bres),
+  let f := Client.wr_flushed wr in
+  Server.o_locs o = None ->
+  Request.vrepo repo = true ->
+  StackUpload.good_upload_id id ->
+  StackTransparent.writer_at wr repo id ->
+  Request.vdigest linked dg = true ->
+  Client.chunk_bytes wr = nil ->
+  BinInt.Z.le BinNums.Z0 f /\ BinInt.Z.le f Request.max_int64 ->
+  bstep (Stack.sv_b (Http.w_srv w)) (Iface.PushBlobChunkedResume repo id f BinNums.Z0) =
+  (b1, Outcome.Ok vw) ->
+  bstep b1 (Iface.WCommit (Server.wid_of vw) dg) = (b3, Outcome.Ok vd) ->
+  Request.vdigest linked (Iface.d_digest (Server.desc_of vd)) = true ->
+  bstep b3 (Iface.WClose (Server.wid_of vw)) = (b4, rc) ->
+  rc <> Outcome.Panic ->
+  rc <> Outcome.OutOfFuel ->
+  exists (w' : Http.world (Stack.srv B)) (wr' : Client.writer),
+    Client.writer_commit (Stack.srv B)
+      (Stack.serve_stack linked hash subject_of enc redirect bstep o)
+      (Stack.stack_env linked hash media dec_errors dec_names dec_index) wr dg w =
+    (w',
+     (wr',
+      Outcome.Ok
+        {|
+          Iface.d_media := Client.octet_stream;
+          Iface.d_digest := dg;
+          Iface.d_size := Client.wr_size wr;
+          Iface.d_artifact := nil
+        |})) /\
+    Client.wr_flushed wr' = f /\
+    Client.wr_size wr' = Client.wr_size wr /\
+    Http.w_srv w' =
+    StackBase.after B (Http.w_srv w) b4
+      (Server.ECall (Iface.PushBlobChunkedResume repo id f BinNums.Z0) (Outcome.Ok vw)
+       :: Server.ECall (Iface.WCommit (Server.wid_of vw) dg) (Outcome.Ok vd)
+          :: Server.ECall (Iface.WClose (Server.wid_of vw)) rc :: nil).
+Proof. exact @StackUploadEmpty.transparent_commit_empty. Qed.
+Print Assumptions C03_transparent_commit_empty.
+
+(* PushBlob of the empty content *)
+Theorem C03_transparent_PushBlob_empty :
+  forall (linked : Ref.alg -> bool) (hash : Bytes.bytes -> Bytes.bytes -> Bytes.bytes)
+    (subject_of : Bytes.bytes -> option (option Bytes.bytes))
+    (media : Bytes.bytes -> Bytes.bytes) (enc : Server.jval -> Bytes.bytes)
+    (dec_errors : Bytes.bytes -> option (list Errors.werr))
+    (dec_names : bool -> Bytes.bytes -> option (list Bytes.bytes))
+    (dec_index : Bytes.bytes -> option (list Iface.desc))
+    (redirect : Bytes.bytes -> Bytes.bytes -> Bytes.bytes * Bytes.bytes) 
+    (B : Type) (bstep : Server.backend B) (o : Server.opts) (cc : Stack.ccfg)
+    (w : Http.world (Stack.srv B)) (repo : Bytes.bytes) (d : Iface.desc)
+    (b1 b2 b3 b4 b5 b7 b8 : B) (vw vid vcs : Server.bval) (rc : Server.bres)
+    (vw2 vd : Server.bval) (rc2 : Server.bres),
+  Server.o_locs o = None ->
+  Request.vrepo repo = true ->
+  Request.vdigest linked (Iface.d_digest d) = true ->
+  Iface.d_size d = BinNums.Z0 ->
+  bstep (Stack.sv_b (Http.w_srv w)) (Iface.PushBlobChunked repo BinNums.Z0) =
+  (b1, Outcome.Ok vw) ->
+  bstep b1 (Iface.WID (Server.wid_of vw)) = (b2, Outcome.Ok vid) ->
+  StackUpload.good_upload_id (Server.str_of vid) ->
+  bstep b2 (Iface.WChunkSize (Server.wid_of vw)) = (b3, Outcome.Ok vcs) ->
+  bstep b3 (Iface.WClose (Server.wid_of vw)) = (b4, rc) ->
+  rc <> Outcome.Panic ->
+  rc <> Outcome.OutOfFuel ->
+  bstep b4 (Iface.PushBlobChunkedResume repo (Server.str_of vid) BinNums.Z0 BinNums.Z0) =
+  (b5, Outcome.Ok vw2) ->
+  bstep b5 (Iface.WCommit (Server.wid_of vw2) (Iface.d_digest d)) = (b7, Outcome.Ok vd) ->
+  bstep b7 (Iface.WClose (Server.wid_of vw2)) = (b8, rc2) ->
+  rc2 <> Outcome.Panic ->
+  rc2 <> Outcome.OutOfFuel ->
+  exists w' : Http.world (Stack.srv B),
+    Stack.stack_call linked hash subject_of media enc dec_errors dec_names dec_index redirect
+      bstep o cc (Client.CPushBlob repo d true true nil) w = (w', Client.ODesc (Outcome.Ok d)) /\
+    Http.w_srv w' =
+    StackBase.after B
+      (StackBase.after B (Http.w_srv w) b4
+         (Server.ECall (Iface.PushBlobChunked repo BinNums.Z0) (Outcome.Ok vw)
+          :: Server.ECall (Iface.WID (Server.wid_of vw)) (Outcome.Ok vid)
+             :: Server.ECall (Iface.WChunkSize (Server.wid_of vw)) (Outcome.Ok vcs)
+                :: Server.ECall (Iface.WClose (Server.wid_of vw)) rc :: nil)) b8
+      (Server.ECall
+         (Iface.PushBlobChunkedResume repo (Server.str_of vid) BinNums.Z0 BinNums.Z0)
+         (Outcome.Ok vw2)
+       :: Server.ECall (Iface.WCommit (Server.wid_of vw2) (Iface.d_digest d)) (Outcome.Ok vd)
+          :: Server.ECall (Iface.WClose (Server.wid_of vw2)) rc2 :: nil).
+Proof. exact @StackUploadEmpty.transparent_PushBlob_empty. Qed.
+Print Assumptions C03_transparent_PushBlob_empty.
+
+(* PushBlob when the backend refuses to open the upload *)
+Theorem C03_transparent_PushBlob_err_start :
+  forall (linked : Ref.alg -> bool) (hash : Bytes.bytes -> Bytes.bytes -> Bytes.bytes)
+    (subject_of : Bytes.bytes -> option (option Bytes.bytes))
+    (media : Bytes.bytes -> Bytes.bytes) (enc : Server.jval -> Bytes.bytes)
+    (dec_errors : Bytes.bytes -> option (list Errors.werr))
+    (dec_names : bool -> Bytes.bytes -> option (list Bytes.bytes))
+    (dec_index : Bytes.bytes -> option (list Iface.desc))
+    (redirect : Bytes.bytes -> Bytes.bytes -> Bytes.bytes * Bytes.bytes) 
+    (B : Type) (bstep : Server.backend B) (o : Server.opts) (cc : Stack.ccfg),
+  media StackBase.json_ct = StackBase.json_ct ->
+  (forall w : Errors.werr, dec_errors (enc (Server.JErr w)) = Some (w :: nil)%list) ->
+  forall (w : Http.world (Stack.srv B)) (repo : Bytes.bytes) (d : Iface.desc)
+    (present rew : bool) (data : Bytes.bytes) (b1 : B) (e : Errors.gerr),
+  Request.vrepo repo = true ->
+  bstep (Stack.sv_b (Http.w_srv w)) (Iface.PushBlobChunked repo BinNums.Z0) =
+  (b1, Outcome.Err e) ->
+  StackTransparent.conf_err e ->
+  BinInt.Z.le
+    (Bytes.blen
+       (enc
+          (Server.JErr
+             (Errors.r_err (Errors.marshal_error Errors.go_sprefix Errors.go_cprefix e)))))
+    (BinNums.Zpos
+       (BinNums.xO
+          (BinNums.xO
+             (BinNums.xO
+                (BinNums.xO
+                   (BinNums.xO
+                      (BinNums.xO
+                         (BinNums.xO
+                            (BinNums.xO
+                               (BinNums.xO
+                                  (BinNums.xO
+                                     (BinNums.xO (BinNums.xO (BinNums.xO BinNums.xH)))))))))))))) ->
+  exists w' : Http.world (Stack.srv B),
+    Stack.stack_call linked hash subject_of media enc dec_errors dec_names dec_index redirect
+      bstep o cc (Client.CPushBlob repo d present rew data) w =
+    (w', Client.ODesc (Outcome.Err (StackTransparent.wire_error enc false e))) /\
+    Http.w_srv w' =
+    StackBase.after B (Http.w_srv w) b1
+      (Server.ECall (Iface.PushBlobChunked repo BinNums.Z0) (Outcome.Err e) :: nil).
+Proof. exact @StackUploadErr.transparent_PushBlob_err_start. Qed.
+Print Assumptions C03_transparent_PushBlob_err_start.
+
+(* PushBlob when the backend refuses the commit (e.g. digest mismatch) *)
+Theorem C03_transparent_PushBlob_err_commit :
+  forall (linked : Ref.alg -> bool) (hash : Bytes.bytes -> Bytes.bytes -> Bytes.bytes)
+    (subject_of : Bytes.bytes -> option (option Bytes.bytes))
+    (media : Bytes.bytes -> Bytes.bytes) (enc : Server.jval -> Bytes.bytes)
+    (dec_errors : Bytes.bytes -> option (list Errors.werr))
+    (dec_names : bool -> Bytes.bytes -> option (list Bytes.bytes))
+    (dec_index : Bytes.bytes -> option (list Iface.desc))
+    (redirect : Bytes.bytes -> Bytes.bytes -> Bytes.bytes * Bytes.bytes) 
+    (B : Type) (bstep : Server.backend B) (o : Server.opts) (cc : Stack.ccfg),
+  media StackBase.json_ct = StackBase.json_ct ->
+  (forall w : Errors.werr, dec_errors (enc (Server.JErr w)) = Some (w :: nil)%list) ->
+  forall (w : Http.world (Stack.srv B)) (repo : Bytes.bytes) (d : Iface.desc)
+    (data : Bytes.bytes) (b1 b2 b3 b4 b5 b6 b7 b8 : B) (vw vid vcs : Server.bval)
+    (rc : Server.bres) (vw2 vn : Server.bval) (e : Errors.gerr) (rc2 : Server.bres),
+  Request.vrepo repo = true ->
+  Request.vdigest linked (Iface.d_digest d) = true ->
+  Iface.d_size d = Bytes.blen data ->
+  BinInt.Z.le (BinNums.Zpos BinNums.xH) (Bytes.blen data) /\
+  BinInt.Z.le (Bytes.blen data) Request.max_int64 ->
+  bstep (Stack.sv_b (Http.w_srv w)) (Iface.PushBlobChunked repo BinNums.Z0) =
+  (b1, Outcome.Ok vw) ->
+  bstep b1 (Iface.WID (Server.wid_of vw)) = (b2, Outcome.Ok vid) ->
+  StackUpload.good_upload_id (Server.str_of vid) ->
+  bstep b2 (Iface.WChunkSize (Server.wid_of vw)) = (b3, Outcome.Ok vcs) ->
+  bstep b3 (Iface.WClose (Server.wid_of vw)) = (b4, rc) ->
+  rc <> Outcome.Panic ->
+  rc <> Outcome.OutOfFuel ->
+  bstep b4 (Iface.PushBlobChunkedResume repo (Server.str_of vid) BinNums.Z0 (Bytes.blen data)) =
+  (b5, Outcome.Ok vw2) ->
+  bstep b5 (Iface.WWrite (Server.wid_of vw2) data) = (b6, Outcome.Ok vn) ->
+  Server.n_of vn = Bytes.blen data ->
+  bstep b6 (Iface.WCommit (Server.wid_of vw2) (Iface.d_digest d)) = (b7, Outcome.Err e) ->
+  bstep b7 (Iface.WClose (Server.wid_of vw2)) = (b8, rc2) ->
+  rc2 <> Outcome.Panic ->
+  rc2 <> Outcome.OutOfFuel ->
+  StackTransparent.conf_err e ->
+  BinInt.Z.le
+    (Bytes.blen
+       (enc
+          (Server.JErr
+             (Errors.r_err (Errors.marshal_error Errors.go_sprefix Errors.go_cprefix e)))))
+    (BinNums.Zpos
+       (BinNums.xO
+          (BinNums.xO
+             (BinNums.xO
+                (BinNums.xO
+                   (BinNums.xO
+                      (BinNums.xO
+                         (BinNums.xO
+                            (BinNums.xO
+                               (BinNums.xO
+                                  (BinNums.xO
+                                     (BinNums.xO (BinNums.xO (BinNums.xO BinNums.xH)))))))))))))) ->
+  exists w' : Http.world (Stack.srv B),
+    Stack.stack_call linked hash subject_of media enc dec_errors dec_names dec_index redirect
+      bstep o cc (Client.CPushBlob repo d true true data) w =
+    (w', Client.ODesc (Outcome.Err (StackTransparent.wire_error enc false e))) /\
+    Http.w_srv w' =
+    StackBase.after B
+      (StackBase.after B (Http.w_srv w) b4
+         (Server.ECall (Iface.PushBlobChunked repo BinNums.Z0) (Outcome.Ok vw)
+          :: Server.ECall (Iface.WID (Server.wid_of vw)) (Outcome.Ok vid)
+             :: Server.ECall (Iface.WChunkSize (Server.wid_of vw)) (Outcome.Ok vcs)
+                :: Server.ECall (Iface.WClose (Server.wid_of vw)) rc :: nil)) b8
+      (Server.ECall
+         (Iface.PushBlobChunkedResume repo (Server.str_of vid) BinNums.Z0 (Bytes.blen data))
+         (Outcome.Ok vw2)
+       :: Server.ECall (Iface.WWrite (Server.wid_of vw2) data) (Outcome.Ok vn)
+          :: Server.ECall (Iface.WCommit (Server.wid_of vw2) (Iface.d_digest d))
+               (Outcome.Err e) :: Server.ECall (Iface.WClose (Server.wid_of vw2)) rc2 :: nil).
+Proof. exact @StackUploadErr.transparent_PushBlob_err_commit. Qed.
+Print Assumptions C03_transparent_PushBlob_err_commit.
+
+(* composition: what the stack answers to a conforming answer is conforming again *)
+Theorem C03_conf_view :
+  forall (linked : Ref.alg -> bool) (hash : Bytes.bytes -> Bytes.bytes -> Bytes.bytes)
+    (subject_of : Bytes.bytes -> option (option Bytes.bytes))
+    (enc : Server.jval -> Bytes.bytes) (o1 o2 : Server.opts) (c : Iface.op) 
+    (r : Server.bres),
+  StackStep.one_call c = true ->
+  StackStep.wf_op linked hash subject_of c ->
+  StackStep.conf_answer linked hash enc o1 c r ->
+  StackStep.conf_answer linked hash enc o2 c r ->
+  StackStep.tag_small o1 c r ->
+  (forall (h : bool) (e : Errors.gerr),
+   StackCompose.answer_error c r = Some (h, e) ->
+   StackStep.relayable enc (StackTransparent.wire_error enc h e)) ->
+  StackStep.conf_answer linked hash enc o2 c (StackStep.view hash enc o1 c r).
+Proof. exact @StackCompose.conf_view. Qed.
+Print Assumptions C03_conf_view.
+
+(* two hops for all 13 single-request methods at once *)
+Theorem C03_two_hops_one :
+  forall (linked : Ref.alg -> bool) (hash : Bytes.bytes -> Bytes.bytes -> Bytes.bytes)
+    (subject_of : Bytes.bytes -> option (option Bytes.bytes))
+    (media : Bytes.bytes -> Bytes.bytes) (enc : Server.jval -> Bytes.bytes)
+    (dec_errors : Bytes.bytes -> option (list Errors.werr))
+    (dec_names : bool -> Bytes.bytes -> option (list Bytes.bytes))
+    (dec_index : Bytes.bytes -> option (list Iface.desc))
+    (redirect : Bytes.bytes -> Bytes.bytes -> Bytes.bytes * Bytes.bytes) 
+    (B : Type) (bstep : Server.backend B) (o1 o2 : Server.opts) (cc1 cc2 : Stack.ccfg),
+  media StackBase.json_ct = StackBase.json_ct ->
+  (forall w : Errors.werr, dec_errors (enc (Server.JErr w)) = Some (w :: nil)%list) ->
+  (forall l : list Iface.desc, dec_index (enc (Server.JIndex l)) = Some l) ->
+  Server.o_locs o1 = None ->
+  Server.o_locs o2 = None ->
+  1 <= Stack.cc_bufsz cc1 ->
+  1 <= Stack.cc_bufsz cc2 ->
+  forall (st2 : Stack.sstate (Stack.sstate B)) (c : Iface.op) (b' : B) (r : Server.bres),
+  StackStep.one_call c = true ->
+  StackStep.wf_op linked hash subject_of c ->
+  StackTwoHops.clean st2 ->
+  StackTwoHops.clean (StackCompose.inner B st2) ->
+  bstep (Stack.sv_b (Stack.st_srv (StackCompose.inner B st2))) (StackStep.bop c) = (b', r) ->
+  StackStep.conf_answer linked hash enc o1 c r ->
+  StackStep.conf_answer linked hash enc o2 c (StackStep.view hash enc o1 c r) ->
+  StackStep.tag_small o1 c r ->
+  StackStep.tag_small o2 c (StackStep.view hash enc o1 c r) ->
+  StackStep.referrers_ok o1 c ->
+  StackStep.referrers_ok o2 c ->
+  Stack.stack_bstep linked hash subject_of media enc dec_errors dec_names dec_index redirect
+    (Stack.stack_bstep linked hash subject_of media enc dec_errors dec_names dec_index
+       redirect bstep o1 cc1) o2 cc2 st2 c =
+  (StackStep.stepped (Stack.sstate B) st2
+     (StackStep.stepped B (StackCompose.inner B st2) b' (StackStep.events c r))
+     (StackStep.events c (StackStep.view hash enc o1 c r)),
+   StackStep.view hash enc o2 c (StackStep.view hash enc o1 c r)).
+Proof. exact @StackCompose.two_hops_one. Qed.
+Print Assumptions C03_two_hops_one.
+
+(* without the side condition the history theorem is false: the empty range (recorded deviation) *)
+Theorem C03_history_transparent_refuted :
+  ~ StackHistoryRefuted.transparent_unconditionally.
+Proof. exact @StackHistoryRefuted.history_transparent_refuted. Qed.
+Print Assumptions C03_history_transparent_refuted.
+
+(* and: a PushBlob that fails leaves the repository entry behind the server (the upload session was opened before the digest was checked) - the unknown-vs-empty slack of C02, confirmed on the real code *)
+Theorem C03_history_transparent_push_refuted :
+  ~ StackHistoryRefuted.transparent_unconditionally.
+Proof. exact @StackHistoryRefuted.history_transparent_push_refuted. Qed.
+Print Assumptions C03_history_transparent_push_refuted.
 
